@@ -12,1313 +12,565 @@ Definition show_fres (r : fres) : string :=
   end.
 Definition check (rs : list rune) : string := digest (show_fres (format_res rs)).
 Definition full (rs : list rune) : string := show_fres (format_res rs).
-Eval vm_compute in ("<<<M1066>>>" ++ check (runes_of_ascii "MetaData	pack
-{  } MetaData	trueish
-{
-    string o,
-u // @lengthOf(
-roots , Header calculatedFrom
-`doc` , zchar[42] metadata `u8 x,`
-    , Packet lengthOf , u128 lengthOf ,} root packet Logon{ repeat/// triple
-zchar[ 7 ]
-// packet A { u8 x, }
-// `tick` ""quote"" 'q'
-roots ,  match u as x  {  [""" ++ [28040; 24687]%N ++ runes_of_ascii """
-    , 0,""a	b""
-    // @lengthOf(
-    , 3/// triple
-,
-    ""a\""b"", ""// no comment""	,""packet"" , ""`tick`"" ]	: o ,[0  ,	""x y""] : u ""a\""b"" : pack [ 65535 , 007
-    , """ ++ [233]%N ++ runes_of_ascii "t" ++ [233]%N ++ runes_of_ascii """
-// " ++ [27880; 37322]%N ++ runes_of_ascii "
-// @lengthOf(
-,42] // trailing space 
-: f32a 255
-    : i8i8//	t
-, 0123456789 :
+Eval vm_compute in ("<<<M2131>>>" ++ check (runes_of_ascii "// " ++ [27880; 37322]%N ++ runes_of_ascii "
+	options{ zchar// a // b
+=
+""x y""
+; options1 
+=
+u16 ; 
+}packet 
 Pad
-,
-} , Foo , @calculatedFrom( ""x y"" )
-body{
-    repeat string metadata`it's` , repeat zchar
-    x_y_z , lengthOf {Logon
-    pack
-, match options1
-as leftPad// c
-{ //x
-10:a1
-, """ ++ [28040; 24687]%N ++ runes_of_ascii """
-    :	A , [
-// trailing space 
-// " ++ [128512]%N ++ runes_of_ascii " emoji
-""" ++ [28040; 24687]%N ++ runes_of_ascii """ ,65535 , 0123456789 , 0
-] : i64_ , 1 // " ++ [27880; 37322]%N ++ runes_of_ascii "
-: string_ ,
-65535	:calculatedFrom ,
-}
-    , crc { u128, u128
-@lengthOf( x) , u16 falsey @lengthOf( u )	, } , char[ 42] options1
-@calculatedFrom( ""packet"")
-`u8 x,`,} , float/// triple
-float  `u8 x,` , }
-,match  packetx
-    as T { ""packet""
-// @lengthOf(
-// @lengthOf(
-: As,
-007 : BodyLength , 00:
-trueish
-, [
-    ""abc""  ,
-10
-    , 3 , 10,
-007
-    ,
-// " ++ [128512]%N ++ runes_of_ascii " emoji
-// c
-""\n""
-, 1
-//	t
-// a // b
-] : _x ,}	, o
-    `say ""hi""` ,
-@leftPad
-( '0' )
-@tag( 10 ) @calculatedFrom( ""\" ++ [233]%N ++ runes_of_ascii """ )
-u32 //	t
-i64_
-    // `tick` ""quote"" 'q'
-    `{ , }`
-,x
-body `line1
-line2`//	t
-,
-}
-packet
-    repeatCount {i64 rootA @calculatedFrom( """ ++ [128512]%N ++ runes_of_ascii """ )	`" ++ [28040; 24687; 31867; 22411]%N ++ runes_of_ascii "` , @rightPad( ' ' ) @rightPad
-(	)  int32 rootA	@calculatedFrom( ""{,}"" ) , i16
-    BodyLength // " ++ [27880; 37322]%N ++ runes_of_ascii "
-, @calculatedFrom( ""`tick`"" )
-Logon
-    lengthOf `two words`
-, zchar[ 4294967296]
-x_y_z
-    `" ++ [28040; 24687; 31867; 22411]%N ++ runes_of_ascii "` , string zchar
-    `say ""hi""`
-// `tick` ""quote"" 'q'
-// c
-, @tag( 1 ) f32 x_y_z `it's`
-, } root packet string_ {// @lengthOf(
-@leftPad
-( '0'
-) // a // b
-@calculatedFrom( ""// no comment"" ) @leftPad
-( ) // " ++ [27880; 37322]%N ++ runes_of_ascii "
-char[
-1]
-tag
-    `say ""hi""` , @calculatedFrom( // " ++ [27880; 37322]%N ++ runes_of_ascii "
-""it's""
-)
-    match BodyLength  as A {
-    255 :Foo,}, u16 x_y_z
-@calculatedFrom( ""CRC32""
-    ) , o  MetaDataX `// not a comment`, options1  @lengthOf(
-x ) , match  float as
-A{ [65535 ] :
-    leftPad
-, [ 007
-,
-7 , ""a\\"",1
-] : msg_type,  10 :u128 """ ++ [28040; 24687]%N ++ runes_of_ascii """ : As , }  ,}
-")).
-Eval vm_compute in ("<<<M3995>>>" ++ check (runes_of_ascii "packet body {
-    chars `two words`,
-    match crc as metadata {
-        65535 : trueish,
-        ""\" ++ [233]%N ++ runes_of_ascii """ : charz,
-        ""abc"" : MetaDataX,
-        [
-            ""packet"", ""// no comment"", 0, 00, ""// no comment"",
-            ""{,}"", 00
-        ] : i64_,
-        """ ++ [233]%N ++ runes_of_ascii "t" ++ [233]%N ++ runes_of_ascii """ : f32a,
-        [""" ++ [128512]%N ++ runes_of_ascii """, ""it's""] : Foo,
-    },
-    @rightPad(' ')
-    repeat char[1] body `it's`,
-    @tag(007)
-    @calculatedFrom(""" ++ [233]%N ++ runes_of_ascii "t" ++ [233]%N ++ runes_of_ascii """)
-    // @lengthOf(
-    //
-    @calculatedFrom(""a\""b"")
-    repeat i64_ {
-        roots {
-            i16 Header `two words`,
-            repeatCount `{ , }`,
-            f64 x @calculatedFrom(""a	b""),
-            repeatCount @calculatedFrom(""""),
-        },
-        repeat u8 BodyLength `crlf
-        line`,
-        // `tick` ""quote"" 'q'
-        char As @lengthOf(Foo),
-    },
-    char[] roots `line1
-    line2`,//
-    int a1,
-    string_ {
-        char[] Logon `line1
-        line2`,
-        repeat float32 trueish,
-    },
-    @leftPad('0')
-    repeat metadata {
-        rootA @lengthOf(falsey) ``,
-        // " ++ [128512]%N ++ runes_of_ascii " emoji
-        // packet A { u8 x, }
-    },
-}
 
-packet float {
-    u16 Logon `tab	here`,
-    // @lengthOf(
-    // c
-    u128 {
-        zchar[255] charz `doc`,
-    },
-    @tag(0)
-    repeat Foo {
-        i32 body @calculatedFrom(""`tick`"") `" ++ [233]%N ++ runes_of_ascii "`,
-    },
-    char[] o @calculatedFrom(""1"") `line1
-    line2`,
-    @lengthOf(zchar)
-    i16 BodyLength @lengthOf(BodyLength),
-    @lengthOf(T)
-    @rightPad(' ')
-    @lengthOf(T)
-    repeat u64 _x,
-    match MetaDataX as options1 {
-        //x
-        0123456789 : options1,
-    },
-    repeat u8 charz,
-    repeat i8i8 {
-        // c
-        a1,
-        len {
-            repeat string o,
-            // a // b
-        },
-        match zchar as Logon {
-            """" : matchKey,
-            """ ++ [128512]%N ++ runes_of_ascii """ : u,
-            007 : repeatCount,
-        },// c
-    },
-}")).
-Eval vm_compute in ("<<<M897>>>" ++ check (runes_of_ascii "packet zchar
-    /// triple
-    {
-match calculatedFrom as
-repeatCount {	[ ""{,}""]
-    : zchar , 00 :
-Pad
-    , 0 : pack	, }, // @lengthOf(
-f64 o`" ++ [28040; 24687; 31867; 22411]%N ++ runes_of_ascii "`,int32 f32a
-    @lengthOf( body ) //
+    { Z9_
+
+    @calculatedFrom(  """"	) 
 `
-`
-    ,  char[ 3 ] chars //	t
-`crlf
-line`
-    , }
-// @lengthOf(
-// packet A { u8 x, }
-MetaData metadata {
-string int
-    ,
-    len lengthOf , } root
-packet	A {
-@tag(0123456789 ) zchar[
-    0123456789
-    ] BodyLength // " ++ [27880; 37322]%N ++ runes_of_ascii "
-, @leftPad( '0' ) @rightPad ( ' '//
-) zchar[0123456789
-]tag `it's` , @tag(
-    007
-)// trailing space 
-@tag(
-    7
-) falsey	@calculatedFrom(
-    ""\" ++ [233]%N ++ runes_of_ascii """//
-), @calculatedFrom(""{,}"" )
-repeat Packet , @lengthOf(u
-    )@calculatedFrom(
-""a\""b""
-// a // b
-// `tick` ""quote"" 'q'
-) @lengthOf(lengthOf )char[]
-uint8x,@leftPad ( '\x00' )// trailing space 
-repeat T { i8i8 a1 ,
-    char[	65535] chars
-    `u8 x,`,
-    Pad , }
-,
-    @lengthOf( o ) u8 x , @calculatedFrom( // @lengthOf(
-""a	b"" )
-lengthOf//
-`// not a comment`
-, A  {  repeat calculatedFrom
-matchKey
-,
-options1 @calculatedFrom( ""a	b""	), // trailing space 
-repeat	u	`line1
-line2` , } ,} packet i8i8
-{} packet pack { zchar[ 0123456789] leftPad`
-`	,@rightPad (
-    '\x00'
+` 
+, @tag(42
+    )//
+	@tag(00
+
+) @lengthOf(
+    zchar
+
     )
-repeat int
-`" ++ [28040; 24687; 31867; 22411]%N ++ runes_of_ascii "`  ,match Packet as
-BodyLength// @lengthOf(
-{[
-00 // a // b
-, 7 ] //x
-: falsey }	,	@tag(00)
-repeat zchar[1 ] len // a // b
-`u8 x,` , @leftPad(  ) rootA
-//	t
-//	t
-@lengthOf(  len
-    ) ,
-    @tag(
-    42 ) // `tick` ""quote"" 'q'
-@lengthOf( i64_ ) repeat	len
-{ x { Logon{
-options1 Logon,
-    }
-, stringy  { string body @lengthOf(tag ) , }
-, falsey falsey
-, } //x
-, MetaDataX
-roots
-`// not a comment` ,} ,}")).
-Eval vm_compute in ("<<<M3700>>>" ++ check (runes_of_ascii "
-options	{
-tag =
-
-0 ;
-	}packet 
-u8x { 	 // trailing space 
-
-u  Z9_
-,
-    @tag(00 ) @rightPad	(
-    '\x00'
-    ) 
-@calculatedFrom( ""CRC32"" )	//	t
-crc
-
-,	metadata @calculatedFrom(""a	b""
-
-) // c
-	, @tag(4294967296  ) u64  rootA `tab	here`	,// @lengthOf(
-  	@calculatedFrom(
-""\n""
-	)
-
-char[]
-    pack
-@lengthOf(chars  ) 
-`" ++ [28040; 24687; 31867; 22411]%N ++ runes_of_ascii "` ,
-    zchar[255  ]
-    Foo	@lengthOf(
-
-f32a
-
-)  ,  @leftPad
-( )
-@lengthOf(  string_
-) @rightPad (
-' '
-)  match 
-msg_type as// " ++ [128512]%N ++ runes_of_ascii " emoji
-
-falsey {
-    // a // b
-
-  ""a	b""
-
+match
+_x // packet A { u8 x, }
+	as
+	metadata
+{
+007 
 :
 
-x	,	}  ,@calculatedFrom(
-	""{,}""
-	) 
-match body	as
-MetaDataX
-    {
-42 // " ++ [27880; 37322]%N ++ runes_of_ascii "
-    : u8x	0123456789  :
-options1
+As
+	""`tick`""  // packet A { u8 x, }
+  	: lengthOf, 
+255
 
-, 	 // c
-  [  3
-	] :
+    :
 
-    As , [ 00 
-]
-    : // c
-      A,
-""CRC32"":
-zchar , [  ""it's"" , """ ++ [233]%N ++ runes_of_ascii "t" ++ [233]%N ++ runes_of_ascii """  ,""1""	, 3
+lengthOf""a	b""
+	// trailing space 
+	// " ++ [27880; 37322]%N ++ runes_of_ascii "
 
+:	Packet
+	255  : a1 ,  // c
+
+	[
+    00 
+, 0
+	,
+    10 , ""a\\""
+	,
+""it's""
     ,
-	""a	b"" ,
-1
-	    //x
-	, 0123456789 , //	t
-    4294967296  ]: packetx
-	, // " ++ [27880; 37322]%N ++ runes_of_ascii "
 
-	},repeat uint8 o
-`{ , }`, 
-	    //	t
-    //
-	} packet
+    10	, 7]:Foo,
+}
+	,	match  Header as
 
-    leftPad  { u32  
-      // packet A { u8 x, }
-	  //x
-  packetx `a\` 
+    o  {[ // packet A { u8 x, }
+    255 ]:
+	zchar 
+,
+    0123456789: 
+leftPad
+	[ 
+007
+,
+    3
+
+    ]:
+    leftPad
+    ,// c
+	0
+	:packetx
+    ,  } ,
+}
+	MetaData
+Pad{// packet A { u8 x, }
+} 
+packet 
+T
+	// packet A { u8 x, }
+
+	{
+// " ++ [27880; 37322]%N ++ runes_of_ascii "
+	charz	@lengthOf( asx
+	)
+    ``, } packet
+
+matchKey 
+{ @tag(3 
+) @calculatedFrom(
+
+""a	b"" 
+/// triple
+// c
+	)@calculatedFrom( """"
+	)
+pack
+    rootA
+, repeat//	t
+	  leftPad`` ,
+repeat uint32  Foo
+`u8 x,`
+    ,
+	@calculatedFrom(
+""" ++ [233]%N ++ runes_of_ascii "t" ++ [233]%N ++ runes_of_ascii """
+
+    ) repeat
+
+    char[
+
+65535 
+]
+	u
+, @lengthOf(
+
+_x 
+) @lengthOf(
+u8x) 
+repeat
+
+zchar[ 
+0123456789
+]
+x ,
+	match
+
+    i64_  // " ++ [27880; 37322]%N ++ runes_of_ascii "
+    as
+
+falsey
+	{	// trailing space 
+255
+:	f32a ,
+
+    ""{,}""	: x,	""\" ++ [233]%N ++ runes_of_ascii """ 
+: matchKey, 
+[ """"	, 
+    // trailing space 
+  ""{,}""
+	,
+	10
+	, """ ++ [128512]%N ++ runes_of_ascii """  
+      // a // b
+		// packet A { u8 x, }
+,""a	b"",	0  ,
+""1""
+
+,
+65535 ] 
+:len,""\" ++ [233]%N ++ runes_of_ascii """
+
+    :
+
+T 
+,
+	[
+
+""CRC32"" , 
+	// " ++ [128512]%N ++ runes_of_ascii " emoji
+  1 , ""// no comment"" ,	007
+	,	1, ""`tick`"" , """ ++ [128512]%N ++ runes_of_ascii """
+    ] 	 // packet A { u8 x, }
+
+  : a1 }
+,
+
+    match x as As
+	{ ""a	b""
+	: o,  007 :
+
+MetaDataX
+,  [
+	""a	b"" ]
+:
+    falsey, ""// no comment""
+    : 
+Z9_
+
+""packet"":
+
+_x
+    // " ++ [128512]%N ++ runes_of_ascii " emoji
+  ,}
+
+, repeat
+rootA	{
+uint8
+    MetaDataX	@calculatedFrom( ""abc""
+
+), match  // `tick` ""quote"" 'q'
+int as// a // b
+  	asx{ [
+	10
+
+,  10 , ""`tick`""
+
+    ,  00
+    ,	4294967296 ]
+	: 
+o
+,
+""CRC32"" : string_ 
+,
+[ 0	]  :
+    roots 65535	: 
+// " ++ [27880; 37322]%N ++ runes_of_ascii "
+  	// trailing space 
+	_x	//
+    ,	""it's"" :
+Pad
+,  4294967296 : 
+Pad,  }
+
+    ,u16
+chars  `line1
+line2`, //x
+
+  }  , 
+}")).
+Eval vm_compute in ("<<<M1913>>>" ++ check (runes_of_ascii "  options {
+    StringPrefixLenType =  u16 ; 
+ArrayPrefixLenType
+
+= 
+u16
+	;}
+	packet SampleBinary
+    {
+    uint16 MsgType `" ++ [28040; 24687; 31867; 22411]%N ++ runes_of_ascii "`
+    ,
+    u16	BodyLenght @lengthOf( 
+Body )`" ++ [28040; 24687; 20307; 38271; 24230]%N ++ runes_of_ascii "`
+    ,
+match  MsgType
+
+as
+    Body  {1
+
+:Logon
+    ,
+    2
+:	Logout
+	, 3 :
+Heartbeat , 4
+: RiskControlRequest , 5:
+    RiskControlResponse
+    , } 
 ,@calculatedFrom(
-""// no comment""	) 
-@rightPad
-	( 
+    ""CRC32""
 )
-    @lengthOf( 
-asx
+    u32	Ckecksum
+`" ++ [26657; 39564; 21644]%N ++ runes_of_ascii "`,}	packet
 
-) 
-        // c
-  // trailing space 
-	char[ 42
-] calculatedFrom
-    @lengthOf(packetx  ) , @tag(00
+Logon
 
-    )stringy
-	msg_type,u128
-i64_
+{
 
-    `it's`
+    @leftPad
+
+('0'
+)	char[
+10]
+UserName`" ++ [29992; 25143; 21517]%N ++ runes_of_ascii "`
+,	string Password `" ++ [23494; 30721]%N ++ runes_of_ascii "` 
 ,
 
-@rightPad('\x00') 
-u8x
+uint64
+    ClientId
+	`" ++ [23458; 25143; 31471]%N ++ runes_of_ascii "ID`,  u16	HeartbeatInterval
+`" ++ [24515; 36339; 38388; 38548]%N ++ runes_of_ascii "` ,
+}
+packet
 
-    ,  @calculatedFrom( """ ++ [28040; 24687]%N ++ runes_of_ascii """ 
-) len msg_type ,	// packet A { u8 x, }
-	MetaDataX
-pack 
+    Logout
+	{
+	@rightPad (
 
-    // c
-,  @calculatedFrom(
-""" ++ [28040; 24687]%N ++ runes_of_ascii """
-) string
+    '0')
 
-    MetaDataX	//	t
-      `
-`
+    char[10	]	UserName	`" ++ [29992; 25143; 21517]%N ++ runes_of_ascii "` ,uint64 ClientId  `" ++ [23458; 25143; 31471]%N ++ runes_of_ascii "ID`,
+
+    }packet 
+Heartbeat
+
+{
+	}
+packet RiskControlRequest {
+string
+UniqueOrderId
+
+`" ++ [21807; 19968; 35746; 21333; 21495]%N ++ runes_of_ascii "`	,char[
+    16] ClOrdID 
+`" ++ [23458; 25143; 35746; 21333; 21495]%N ++ runes_of_ascii "`
+
+, char[
+	3	] MarketID  `" ++ [24066; 22330]%N ++ runes_of_ascii "id`,
+
+    char[ 
+12]	SecurityID
+
+    `" ++ [35777; 21048; 20195; 30721]%N ++ runes_of_ascii "`
+	,
+
+char
+	Side
+	`" ++ [20080; 21334; 26041; 21521]%N ++ runes_of_ascii "`,
+
+char
+
+OrderType `" ++ [35746; 21333; 31867; 22411]%N ++ runes_of_ascii "` ,u64
+Price `" ++ [20215; 26684]%N ++ runes_of_ascii "`
+,u32
+Qty  `" ++ [25968; 37327]%N ++ runes_of_ascii "`
 ,
 
+    repeat
+    string ExtraInfo
+	`" ++ [38468; 21152; 20449; 24687]%N ++ runes_of_ascii "`
+    , repeat
+
+    SubOrder { 
+char[ 16	]
+
+    ClOrdID `" ++ [23376; 35746; 21333; 21495]%N ++ runes_of_ascii "`
+	,u64	Price
+
+`" ++ [23376; 35746; 21333; 20215; 26684]%N ++ runes_of_ascii "`, u32
+	Qty
+
+`" ++ [23376; 35746; 21333; 25968; 37327]%N ++ runes_of_ascii "`
+
+,
+
+}
+	,
+
+    }  packet
+RiskControlResponse{
+
+    string UniqueOrderId
+
+`" ++ [21807; 19968; 35746; 21333; 21495]%N ++ runes_of_ascii "`	,
+    i32  Status`" ++ [29366; 24577]%N ++ runes_of_ascii "`
+    , string
+	Msg `" ++ [32467; 26524; 20449; 24687]%N ++ runes_of_ascii "`,  repeat
+    Detail
+
+, }
+
+    packet
+
+    Detail
+
+    {  string 
+RuleName
+
+`" ++ [35268; 21017; 21517; 31216]%N ++ runes_of_ascii "`,u16  Code
+
+`" ++ [21407; 22240; 20195; 30721]%N ++ runes_of_ascii "`
+
+,
     }")).
-Eval vm_compute in ("<<<M1392>>>" ++ check (runes_of_ascii "options {
-    StringPrefixLenType = u16;
-    ArrayPrefixLenType = u16;
+Eval vm_compute in ("<<<M378>>>" ++ check (runes_of_ascii "options {
+	StringPrefixLenType = u16;
+	ArrayPrefixLenType = u16;
 }
 
 packet SampleBinary {
-    uint16 MsgType `" ++ [28040; 24687; 31867; 22411]%N ++ runes_of_ascii "`,
-    u16 BodyLenght @lengthOf(Body) `" ++ [28040; 24687; 20307; 38271; 24230]%N ++ runes_of_ascii "`,
-    match MsgType as Body {
-        1 : Logon,
-        2 : Logout,
-        3 : Heartbeat,
-        4 : RiskControlRequest,
-        5 : RiskControlResponse,
-    },
-    @calculatedFrom(""CRC32"")
-    u32 Ckecksum `" ++ [26657; 39564; 21644]%N ++ runes_of_ascii "`,
+	uint16 MsgType `" ++ [28040; 24687; 31867; 22411]%N ++ runes_of_ascii "`,
+	u16 BodyLenght @lengthOf(Body) `" ++ [28040; 24687; 20307; 38271; 24230]%N ++ runes_of_ascii "`,
+	match MsgType as Body {
+		1 : Logon,
+		2 : Logout,
+		3 : Heartbeat,
+		4 : RiskControlRequest,
+		5 : RiskControlResponse,
+	},
+		@calculatedFrom(""CRC32"")
+	u32 Ckecksum `" ++ [26657; 39564; 21644]%N ++ runes_of_ascii "`,
 }
 
 packet Logon {
-    @leftPad('0')
-    char[10] UserName `" ++ [29992; 25143; 21517]%N ++ runes_of_ascii "`,
-    string Password `" ++ [23494; 30721]%N ++ runes_of_ascii "`,
-    uint64 ClientId `" ++ [23458; 25143; 31471]%N ++ runes_of_ascii "ID`,
-    u16 HeartbeatInterval `" ++ [24515; 36339; 38388; 38548]%N ++ runes_of_ascii "`,
+	 @leftPad('0')
+	char[10] UserName `" ++ [29992; 25143; 21517]%N ++ runes_of_ascii "`,
+	string Password `" ++ [23494; 30721]%N ++ runes_of_ascii "`,
+	uint64 ClientId `" ++ [23458; 25143; 31471]%N ++ runes_of_ascii "ID`,
+	u16 HeartbeatInterval `" ++ [24515; 36339; 38388; 38548]%N ++ runes_of_ascii "`,
 }
 
 packet Logout {
-    @rightPad('0')
-    char[10] UserName `" ++ [29992; 25143; 21517]%N ++ runes_of_ascii "`,
-    uint64 ClientId `" ++ [23458; 25143; 31471]%N ++ runes_of_ascii "ID`,
+	  @rightPad('0')
+	char[10] UserName `" ++ [29992; 25143; 21517]%N ++ runes_of_ascii "`,
+	uint64 ClientId `" ++ [23458; 25143; 31471]%N ++ runes_of_ascii "ID`,
 }
 
 packet Heartbeat {
 }
 
 packet RiskControlRequest {
-    string UniqueOrderId `" ++ [21807; 19968; 35746; 21333; 21495]%N ++ runes_of_ascii "`,
-    char[16] ClOrdID `" ++ [23458; 25143; 35746; 21333; 21495]%N ++ runes_of_ascii "`,
-    char[3] MarketID `" ++ [24066; 22330]%N ++ runes_of_ascii "id`,
-    char[12] SecurityID `" ++ [35777; 21048; 20195; 30721]%N ++ runes_of_ascii "`,
-    char Side `" ++ [20080; 21334; 26041; 21521]%N ++ runes_of_ascii "`,
-    char OrderType `" ++ [35746; 21333; 31867; 22411]%N ++ runes_of_ascii "`,
-    u64 Price `" ++ [20215; 26684]%N ++ runes_of_ascii "`,
-    u32 Qty `" ++ [25968; 37327]%N ++ runes_of_ascii "`,
-    repeat string ExtraInfo `" ++ [38468; 21152; 20449; 24687]%N ++ runes_of_ascii "`,
-    repeat SubOrder {
-        char[16] ClOrdID `" ++ [23376; 35746; 21333; 21495]%N ++ runes_of_ascii "`,
-        u64 Price `" ++ [23376; 35746; 21333; 20215; 26684]%N ++ runes_of_ascii "`,
-        u32 Qty `" ++ [23376; 35746; 21333; 25968; 37327]%N ++ runes_of_ascii "`,
-    },
+	string UniqueOrderId `" ++ [21807; 19968; 35746; 21333; 21495]%N ++ runes_of_ascii "`,
+	char[16] ClOrdID `" ++ [23458; 25143; 35746; 21333; 21495]%N ++ runes_of_ascii "`,
+	char[3] MarketID `" ++ [24066; 22330]%N ++ runes_of_ascii "id`,
+	char[12] SecurityID `" ++ [35777; 21048; 20195; 30721]%N ++ runes_of_ascii "`,
+	char Side `" ++ [20080; 21334; 26041; 21521]%N ++ runes_of_ascii "`,
+	char OrderType `" ++ [35746; 21333; 31867; 22411]%N ++ runes_of_ascii "`,
+	u64 Price `" ++ [20215; 26684]%N ++ runes_of_ascii "`,
+	u32 Qty `" ++ [25968; 37327]%N ++ runes_of_ascii "`,
+	repeat string ExtraInfo `" ++ [38468; 21152; 20449; 24687]%N ++ runes_of_ascii "`,
+	repeat SubOrder {
+			char[16] ClOrdID `" ++ [23376; 35746; 21333; 21495]%N ++ runes_of_ascii "`,
+			u64 Price `" ++ [23376; 35746; 21333; 20215; 26684]%N ++ runes_of_ascii "`,
+			u32 Qty `" ++ [23376; 35746; 21333; 25968; 37327]%N ++ runes_of_ascii "`,
+		},
 }
 
 packet RiskControlResponse {
-    string UniqueOrderId `" ++ [21807; 19968; 35746; 21333; 21495]%N ++ runes_of_ascii "`,
-    i32 Status `" ++ [29366; 24577]%N ++ runes_of_ascii "`,
-    string Msg `" ++ [32467; 26524; 20449; 24687]%N ++ runes_of_ascii "`,
-    repeat Detail,
+	string UniqueOrderId `" ++ [21807; 19968; 35746; 21333; 21495]%N ++ runes_of_ascii "`,
+	i32 Status `" ++ [29366; 24577]%N ++ runes_of_ascii "`,
+	string Msg `" ++ [32467; 26524; 20449; 24687]%N ++ runes_of_ascii "`,
+	repeat Detail,
 }
 
 packet Detail {
-    string RuleName `" ++ [35268; 21017; 21517; 31216]%N ++ runes_of_ascii "`,
-    u16 Code `" ++ [21407; 22240; 20195; 30721]%N ++ runes_of_ascii "`,
+	string RuleName `" ++ [35268; 21017; 21517; 31216]%N ++ runes_of_ascii "`,
+	u16 Code `" ++ [21407; 22240; 20195; 30721]%N ++ runes_of_ascii "`,
 }")).
-Eval vm_compute in ("<<<M534>>>" ++ check (runes_of_ascii "
-packet
-float
-{ @leftPad ( // packet A { u8 x, }
-'\x00' )
-    i64_ {string Z9_
-,} ,
-    @tag( //x
-0 )char[] u8x @calculatedFrom( ""a	b"" ) ,@lengthOf(	u128)int8
-    u	`two words` ,
-u64 Foo `a\` //x
-, @leftPad// packet A { u8 x, }
-(
-    '0'
-    )
-repeat
-//x
-// " ++ [128512]%N ++ runes_of_ascii " emoji
-repeatCount //x
-{ repeat Pad {repeat  tag {
-    char[
-00 ] //	t
-Logon `it's` , string_, }
-    ,  match // " ++ [128512]%N ++ runes_of_ascii " emoji
-As // c
-as
-    matchKey
-    {
-    7:lengthOf } ,
-    match u128  as tag {
-    [ 7 ]
-    :// " ++ [128512]%N ++ runes_of_ascii " emoji
-Packet
+Eval vm_compute in ("<<<M154>>>" ++ check (runes_of_ascii "options { } packet
     //	t
-    , """ ++ [28040; 24687]%N ++ runes_of_ascii """: Foo ,65535 // " ++ [128512]%N ++ runes_of_ascii " emoji
-: calculatedFrom
-//x
-//x
-}/// triple
-, // a // b
-} , // " ++ [128512]%N ++ runes_of_ascii " emoji
-f32
-options1 `doc`// c
-, // trailing space 
-} ,@leftPad ( '0'	) match  rootA // packet A { u8 x, }
-as
-i64_ {3
+    falsey /// triple
+{	i64 calculatedFrom
+    @calculatedFrom(
+    //
+    ""a\\"" )
+`it's` ,
+char[ 00 ] falsey ,	@calculatedFrom(""1"" ) @calculatedFrom( ""{,}""
+    )
+i32	float	,@tag(3 //
+)
+    @calculatedFrom(  ""CRC32"" ) int64 options1 @lengthOf(roots ) `two words` , @calculatedFrom(""a\\""	) repeat trueish { repeat charz
+,trueish // trailing space 
+tag //x
+`two words` ,
+repeat u64 Logon  `" ++ [28040; 24687; 31867; 22411]%N ++ runes_of_ascii "`,},
+    @leftPad(
+    //x
+    '0'
+)// " ++ [128512]%N ++ runes_of_ascii " emoji
+@rightPad (
 // " ++ [128512]%N ++ runes_of_ascii " emoji
 //
-: msg_type , ""abc"": rootA ,
-    //	t
-    [ ""CRC32"" ]
-: float ,10 : pack ,""" ++ [128512]%N ++ runes_of_ascii """
-:	tag } ,
-@rightPad (
-    // trailing space 
-    '\x00')	char[ 65535] _x @calculatedFrom( """ ++ [128512]%N ++ runes_of_ascii """	), char[ 4294967296 ] lengthOf @calculatedFrom(""// no comment"" ) ,@leftPad (  ' ' )zchar[007 ] options1 ,/// triple
-}	packet
-    // " ++ [27880; 37322]%N ++ runes_of_ascii "
-    rootA {
-} packet charz
-    { repeat
-As`` ,} packet f32a {	}
-    MetaData	roots { body matchKey `// not a comment`,
-}
-")).
-Eval vm_compute in ("<<<M278>>>" ++ check (runes_of_ascii "MetaData f32a { uint8
-/// triple
-//x
-x ,
-f64 As
-`" ++ [233]%N ++ runes_of_ascii "`
-    // packet A { u8 x, }
-    , i64 f32a `u8 x,`  , uint32 // " ++ [128512]%N ++ runes_of_ascii " emoji
-string_ `crlf
-line` , char[ 10] pack
-    `a\` /// triple
-,Packet lengthOf	,}
-    root
-packet
-    MetaDataX { i32	u8x`tab	here` ,
-char[] stringy @lengthOf( repeatCount
-    ) `crlf
-line` , @rightPad ( )@lengthOf( Foo  ) char[
-65535	] body  , repeat pack{
-rootA `it's`
-    , match msg_type as  x_y_z {
-1:
-i64_ , 0123456789
-:Logon
-    , [ ""CRC32""]
-:
-A 1
-: _x , // a // b
-[ 42
-    // a // b
-    ] //
-:// @lengthOf(
-repeatCount , ""a	b""
-: pack
-    ,
-},
-char[
-    4294967296]lengthOf @lengthOf( options1//x
-), } , @tag( 4294967296 ) // " ++ [128512]%N ++ runes_of_ascii " emoji
-@calculatedFrom( //x
-""" ++ [128512]%N ++ runes_of_ascii """ )
-// " ++ [128512]%N ++ runes_of_ascii " emoji
-// " ++ [27880; 37322]%N ++ runes_of_ascii "
-repeat string	u, @lengthOf( // @lengthOf(
-f32a	) @tag(
-    007 ) @tag(
-7  ) msg_type Pad  , }
-    MetaData roots
-    { u64 MetaDataX
-,}
-packet // " ++ [27880; 37322]%N ++ runes_of_ascii "
-roots
-{
-@tag(
-    255 )
-    char[
-0123456789
-]  Logon`" ++ [28040; 24687; 31867; 22411]%N ++ runes_of_ascii "`
-    ,
-    body // packet A { u8 x, }
-@lengthOf( // a // b
-u8x) `two words`
-// " ++ [27880; 37322]%N ++ runes_of_ascii "
-/// triple
-, @lengthOf( Z9_
-)
-    packetx @calculatedFrom( """ ++ [28040; 24687]%N ++ runes_of_ascii """ )// " ++ [27880; 37322]%N ++ runes_of_ascii "
-,
-    }
-")).
-Eval vm_compute in ("<<<M3925>>>" ++ check (runes_of_ascii "
-
-  // a // b
-packet  body{
-	@lengthOf(
-	tag 
-
-    // trailing space 
-	)
-char[ 255 ]
-
-Packet ,
-@leftPad 
-( )@rightPad	(
-'0' )
-	repeat  Pad{ repeat	char[007
-
-]
-
-    As ,
-    }
-	,match
-Header
-	as crc
-    {007
-
-:
-	Logon[ ""a\""b"", 0]
-
-:
-_x
-    ,
-
-255
-
-    :
-	_x 	 // trailing space 
-	,
-
-3 : 
-pack
-
-    ,
-
-""a\\""
-: _x ,
-""CRC32"":  repeatCount  // trailing space 
-	,
-    } 
-    // `tick` ""quote"" 'q'
-// " ++ [128512]%N ++ runes_of_ascii " emoji
-  , @lengthOf(	MetaDataX )  charz chars 	 // @lengthOf(
-
-	`it's`	,  @tag(
-    10	//
-	)  match
-    a1
-
-    as 
-x_y_z	{""// no comment""  : Foo ,
-
-[""// no comment"" ,10
-
-]: roots ,
-
-}
-
-,
-} packet options1  {}
-
-    packet
-
-    asx {
-	@rightPad
-
-(  ' '
-) 
-match
-
-    string_
-as MetaDataX  //x
-{
-	[ 
-42 
-,	// trailing space 
-
-	3
-,
-""abc""  ,
-	7 ]:  rootA ,
-    0123456789
-:
-	BodyLength 
-""abc""
-
-:
-BodyLength	,""x y""
-    :metadata
-,
-    }
-,	}	MetaData
-    u128  {string 
-rootA
-	, 
-}	MetaData
-	_x {  i8i8
-    matchKey	`it's` 
-
-    //	t
-		// a // b
-		, uint32
-len,
-tag
-
-options1 ,  char[
-1	]
-x ,
-	}
-")).
-Eval vm_compute in ("<<<M3641>>>" ++ check (runes_of_ascii "options
-    {  StringPrefixLenType=	u64; ArrayPrefixLenType
-
-= 
-u16;
-
-FixedStringPadChar=' '
-	;
-
-} packet
-
-Logon
-{i32
-msgKind
-
-    ,	repeat
-
-    InOrderid65{u8
-
-pad0
-,
-}
-	,
-	i8 
-tag7,
-    @leftPad  (
-
-    ' ' )
-
-    char[
-12  ]
-x
-
-,
-}	packet
-	Leg{char[] 
-f1
-
-,
-	repeat
-
-char[
-	5
-] 
-Px  ,InQty34 {
-repeat
-    char[ 6 
-] 
-Qty
-    , char[
-
-7]
-    seqNo
-
-    , string count,
-    }
-
-,Logon  ,
-	}
-
-packet
-    Party {  @leftPad  (
-
-    '0'
-
-)  char[
-    10	]
-    OrderId	,
-    string Tail , }
-	packet	Fill 
-{
-
-zchar[  5
-
-    ] 
-venue
-
-,
-zchar[3
-	]  clOrdID, 
-InRef95
-    {InLastpx25
-
-{u8 pad0
-
-,} ,
-	float64 OrderId 
-, 
-i32 
-f1 , float32 
-x
-,char[]seqNo,} ,
-
-    repeat string seqNo
-	,}
-root	packet Heartbeat{ repeat
-Leg
-    ,
-	u32
-    seqNo  , u16 tag7,
-u32  Flags@lengthOf(	Body
-
-    )
-	,
-match
-tag7
-    as
-Body
-	{
-[ 
-195  ,
-75
-
-]:
-
-Party
-    , 171 : Fill
-	,
-78 :Logon  ,142
-	:
-    Leg
-	,}
-,
-
-u32 Note @calculatedFrom(	""CRC32""  ), }
-")).
-Eval vm_compute in ("<<<M4447>>>" ++ check (runes_of_ascii "  root 	 // c
-      packet msg_type  {
-
-repeat 	 // packet A { u8 x, }
-    A	{
-	repeat 
-a1{
-
-repeat	len	// trailing space 
-  ,  },
-pack string_
-,
-
-zchar[7
-] msg_type
-	@lengthOf( 
-u
-) ,	}	,  repeat
-zchar[ // `tick` ""quote"" 'q'
-	00
-    ]tag,
-u64 o@calculatedFrom( 
-""a\\"" 
-	    // trailing space 
-	)
-	,
-
-}
-	packet
-    charz	{@tag(
-0) // c
-    	repeat
-// a // b
-
-	u
-
-{
-char[007 ] 
-T
-
-    , }  ,repeatCount @calculatedFrom( ""\n"" )
-, }
-packet
-trueish
-	{ 
-@calculatedFrom( 
-""a\\""	)  @rightPad
-	('0' )	// `tick` ""quote"" 'q'
-
-@lengthOf( BodyLength	) string
-    asx @lengthOf( A ), 
-    //x
-  /// triple
-@rightPad
-    ( ' ')  match
-pack 
-        // @lengthOf(
-
-	as
-
-leftPad
-	{
-[ 1
-
-    ]	// a // b
-  :body
-    ,	[
-
-    ""a	b""
-	]
-	:msg_type
-
-, // `tick` ""quote"" 'q'
-    10 : calculatedFrom
-    ,
-7 : packetx
-
-,
-
-    """ ++ [233]%N ++ runes_of_ascii "t" ++ [233]%N ++ runes_of_ascii """ : roots
-,	}
-
-,
-
-    @calculatedFrom(""1"")repeat	roots  
-      // c
-  	u8x	,
-}
-")).
-Eval vm_compute in ("<<<M4614>>>" ++ check (runes_of_ascii "packet	As
-{// " ++ [27880; 37322]%N ++ runes_of_ascii "
-	@leftPad
-	(  '0' 
-        /// triple
-
-)	@lengthOf(
-i64_)
-	// @lengthOf(
-	  /// triple
-@leftPad
-    (  '\x00'  )
-
-    calculatedFrom
-    f32a	,match
-
-x
-    as
-    x_y_z{ """"
-    // c
-  	:
-	body,
-
-    007 :
-o 
-,  [	""{,}""  ]
-: 
-As  ,
-""\n""
-    :
-
-    stringy
-,
-	4294967296 :roots
-    ,
-
-}
-
-    ,calculatedFrom , match Pad
-
-    as
-asx
-    {
-	[  """ ++ [28040; 24687]%N ++ runes_of_ascii """,""1""
-    ,	""a	b""
-
-,3
-
-,	""x y""
-
-    ,
-	00  , 10	, ""\" ++ [233]%N ++ runes_of_ascii """
-	] :  Pad  65535: x
-7
-: x_y_z 
-3  :
-charz ,
-""" ++ [233]%N ++ runes_of_ascii "t" ++ [233]%N ++ runes_of_ascii """ :
-lengthOf }, @calculatedFrom(	""{,}""
-)
-
-    @calculatedFrom( ""CRC32""
-
-)  @calculatedFrom(
-
-    ""a	b"" )  
-  /// triple
-	  // trailing space 
-	crc
-
-    As  /// triple
-	, 
-calculatedFrom{ char[] x ``, } 
-,
-
-@rightPad 	 // `tick` ""quote"" 'q'
-    	( '\x00'
-
-)
-repeat
-char[] asx  /// triple
-
-	`tab	here` ,
-    f32a {repeat char
-	u  , }  // `tick` ""quote"" 'q'
-, 
-} ")).
-Eval vm_compute in ("<<<M3690>>>" ++ check (runes_of_ascii "
-
-  //x
-	packet
-zchar
-{ match
-
-a1
-	as
-
-    BodyLength {
-    [// " ++ [128512]%N ++ runes_of_ascii " emoji
-      ""a\\""
-]: trueish ,} 
-,@leftPad  ( 
-      //	t
-    '0'
-)repeatCount	@calculatedFrom(""a	b""	)`tab	here`, int8
-
-    o
-	@lengthOf( i64_)
-	`u8 x,`
-    ,
-u8 chars ,
-}
-	packet
-
-    trueish {  @lengthOf(
-	crc
-
-)
-@calculatedFrom(
-""" ++ [128512]%N ++ runes_of_ascii """
-    )
-@calculatedFrom(
-	""`tick`""
-)  //x
-
-match
-BodyLength  as	Z9_{ 
-3 
-:
-falsey
-
-[ 42  ,
-    00
-, 3  ,  10]
-
-:packetx,
-	255 :
-    metadata , } // trailing space 
-  ,repeat x_y_z Header 
-,
-    @calculatedFrom(
-	""CRC32""
-)  Z9_// trailing space 
-  	{	x 
-
-    // @lengthOf(
-    @calculatedFrom( 
-""1"" 
-	    // packet A { u8 x, }
-//x
-    )
-
-    `it's`, 
-    // packet A { u8 x, }
-  // trailing space 
-	string
-    Header,
-	},
-
-    @lengthOf( roots )  i64_,	} 
-        // @lengthOf(
- 
-")).
-Eval vm_compute in ("<<<M4352>>>" ++ check (runes_of_ascii "root packet leftPad {
-    match As as A {
-        00 : i8i8,
-        ""x y"" : Packet,
-        ""abc"" : falsey,
-    },
-    float32 trueish,
-    @calculatedFrom(""1"")
-    u64 roots `line1
-        line2`,
-    @tag(42)
-    string int @lengthOf(Header),
-    @tag(1)
-    @lengthOf(float)
-    rootA Z9_,
-    match msg_type as metadata {
-        [7, 0123456789] : uint8x,
-        [255] : int,
-        // @lengthOf(
-        255 : lengthOf,
-        ""a\\"" : u128,
-        ""1"" : u128,
-    },
-    roots int `two words`,
-    repeat BodyLength asx,
-    lengthOf @lengthOf(packetx),
-    @lengthOf(a1)
-    char[10] x,
-}
-
-options {
-    f32a = '0';
-    chars = ' ';
-    Header = ' ';
-    i8i8 = zchar[007];
-    leftPad = ' ';
-}
-
-packet falsey {
-    @lengthOf(u8x)
-    x @lengthOf(tag),
-}")).
-Eval vm_compute in ("<<<M3862>>>" ++ check (runes_of_ascii "packet Foo {
-    @leftPad('\x00')
-    chars {
-        repeat char[] tag `// not a comment`,
-        repeat u8 T,
-        repeat Foo BodyLength `it's`,
-        zchar {
-            u repeatCount `" ++ [233]%N ++ runes_of_ascii "`,
-            Header,
-            repeat i64 u128,
-            repeat charz {
-                char[] leftPad,
-                zchar[42] lengthOf `{ , }`,
-            },
-        },
-    },
-    @calculatedFrom(""it's"")
-    Pad {
-        i16 f32a,
-        repeat char[10] x `{ , }`,
-        match metadata as o {
-            """ ++ [128512]%N ++ runes_of_ascii """ : metadata,
-            1 : rootA,
-        },
-    },
-    packetx `{ , }`,
-}
-
-packet falsey {
-}
-
-options {
-    MetaDataX = zchar[10];
-    string_ = '0';
-    i8i8 = true
-    _x = char[0123456789]
-}
-// a // b")).
-Eval vm_compute in ("<<<M560>>>" ++ check (runes_of_ascii "
-packet
-    a1 /// triple
-{ @lengthOf(
-    As
-)uint16 // " ++ [128512]%N ++ runes_of_ascii " emoji
-matchKey
-`line1
-line2` , }
-options { pack = 7 } packet
-    // " ++ [128512]%N ++ runes_of_ascii " emoji
-    packetx {@calculatedFrom(  ""packet"" ) int8 metadata
-@lengthOf(
-metadata
-    ) , @tag(	7 )
-    lengthOf @lengthOf( u128) // " ++ [128512]%N ++ runes_of_ascii " emoji
-, @rightPad (
-    )Header
-@lengthOf( msg_type
-)  ``,
-leftPad ,
-}
-packet
-    // packet A { u8 x, }
-    string_{ }  packet f32a { @leftPad ( '0'
-) @leftPad ( ' '
-    /// triple
-    )
-@leftPad (' '
-) x_y_z { char charz @calculatedFrom(
-""""  )
+' ' )
 //	t
-// trailing space 
-,
-repeat rootA
-repeatCount ,
-    // packet A { u8 x, }
-    repeat u128 f32a `// not a comment` ,},
-// " ++ [27880; 37322]%N ++ runes_of_ascii "
-// trailing space 
-} // packet A { u8 x, }")).
-Eval vm_compute in ("<<<M1160>>>" ++ check (runes_of_ascii "
-root
-    packet
-i8i8  {
-@tag( 3)  @tag( 3
-) match u128 as
-f32a
-    // packet A { u8 x, }
-    {//	t
-[
-0123456789
-    , ""a\""b"" ,
-0123456789 ,
-42 , ""// no comment"" ]
-    :
-    Foo }	, } packet Z9_ {@leftPad
-(
-'0' // packet A { u8 x, }
-)	char[] Pad @lengthOf(Z9_ ) `` , u8x u	`doc`
-,  @calculatedFrom(
-/// triple
-// @lengthOf(
-""{,}""
-    )falsey { u8x f32a , }
-,repeat	i8 metadata ,
-repeat i64
-i8i8, zchar[ 1]u
-,  string	crc `crlf
-line` ,// " ++ [128512]%N ++ runes_of_ascii " emoji
-match i8i8 as
-    matchKey { [ 0
-,	0123456789  ] : uint8x
+//
+u roots,repeat
+A	{i32 int
+@lengthOf( zchar
+)`" ++ [233]%N ++ runes_of_ascii "`
     ,
-},
-    metadata @calculatedFrom( ""CRC32"") `
-` ,	@lengthOf(_x ) @tag(	7 )
-    @tag( 00) repeat Packet matchKey`it's` , // " ++ [128512]%N ++ runes_of_ascii " emoji
-}
+    }//	t
+, u64 A , @tag( 10 ) char[]
+u8x, zchar[
+10 ] pack
+//
+// " ++ [27880; 37322]%N ++ runes_of_ascii "
+@calculatedFrom(""1"" ) `say ""hi""` ,	} packet Z9_//	t
+{// " ++ [27880; 37322]%N ++ runes_of_ascii "
+@leftPad( '0')  repeat
+// a // b
+// @lengthOf(
+As charz
+, body @calculatedFrom( ""it's""
+    )`crlf
+line` ,
+    // " ++ [27880; 37322]%N ++ runes_of_ascii "
+    @leftPad ('0'
+) zchar[ 4294967296 ]
+A @calculatedFrom(""packet""
+    // trailing space 
+    ) `" ++ [233]%N ++ runes_of_ascii "`  , repeat body
+    Header`" ++ [233]%N ++ runes_of_ascii "`,}
 ")).
-Eval vm_compute in ("<<<M4305>>>" ++ check (runes_of_ascii "packet falsey {
-    float64 calculatedFrom `
-    `,/// triple
-    @tag(42)
-    repeatCount {
-        match repeatCount as A {
-            0 : f32a,
+Eval vm_compute in ("<<<M2037>>>" ++ check (runes_of_ascii "root packet msg_type {
+    repeat A {
+        repeat a1 {
+            repeat len,
         },
-        uint16 f32a @calculatedFrom(""a\\"") `// not a comment`,
-        crc {
-            char[3] Logon @calculatedFrom(""packet""),
-            repeat u128 {
-                zchar[42] lengthOf `crlf
-                line`,
-                Pad roots `line1
-                line2`,
-            },
-            // packet A { u8 x, }
-            // `tick` ""quote"" 'q'
-        },
+        pack string_,
+        zchar[7] msg_type @lengthOf(u),
     },
+    repeat zchar[00] tag,
+    u64 o @calculatedFrom(""a\\""),
 }
 
-packet uint8x {
-    repeat u8 body,
+packet charz {
+    @tag(0)
+    // c
+    repeat u {
+        char[007] T,
+    },
+    repeatCount @calculatedFrom(""\n""),
 }
 
-packet asx {
-    zchar[255] asx,
+packet trueish {
+    @calculatedFrom(""a\\"")
+    @rightPad('0')
+    // `tick` ""quote"" 'q'
+    @lengthOf(BodyLength)
+    string asx @lengthOf(A),
+    //x
+    /// triple
+    @rightPad(' ')
+    match pack as leftPad {
+        [1] : body,
+        [""a	b""] : msg_type,
+        // `tick` ""quote"" 'q'
+        10 : calculatedFrom,
+        7 : packetx,
+        """ ++ [233]%N ++ runes_of_ascii "t" ++ [233]%N ++ runes_of_ascii """ : roots,
+    },
+    @calculatedFrom(""1"")
+    repeat roots u8x,
+}")).
+Eval vm_compute in ("<<<M1821>>>" ++ check (runes_of_ascii "// " ++ [27880; 37322]%N ++ runes_of_ascii "
+root packet _x {
+    //	t
+    // packet A { u8 x, }
+    @rightPad()
+    zchar[007] Logon @calculatedFrom(""x y""),
+    zchar[7] string_ @lengthOf(Packet) `two words`,
+    @tag(007)
+    @calculatedFrom(""x y"")
+    repeat calculatedFrom {
+        // packet A { u8 x, }
+        zchar @calculatedFrom(""" ++ [233]%N ++ runes_of_ascii "t" ++ [233]%N ++ runes_of_ascii """),
+        int32 leftPad,
+    },
+    repeat body chars,
+    @lengthOf(options1)
+    repeat char[255] Foo,
+    // c
+    //
+    repeat MetaDataX {
+        pack,
+    },
+    char[7] repeatCount @calculatedFrom(""it's""),
+}
+
+// trailing space 
+packet Packet {
+    Header @lengthOf(uint8x) `two words`,
+}
+
+options {
+}
+
+root packet msg_type {
+    int32 body `" ++ [28040; 24687; 31867; 22411]%N ++ runes_of_ascii "`,
 }")).
 Eval vm_compute in ("<<<M255>>>" ++ check (runes_of_ascii "MetaData metadata { // `tick` ""quote"" 'q'
 msg_type
@@ -1358,1400 +610,627 @@ packet crc {matchKey @lengthOf( float	) ,
     }
 
 ")).
-Eval vm_compute in ("<<<M3843>>>" ++ check (runes_of_ascii "
-options	{	roots
-= '\x00' lengthOf 
-=
-    true 
-;
-Packet= // `tick` ""quote"" 'q'
-	""packet"" ; o
-=  // packet A { u8 x, }
-	""packet""
-
-    ;
-    A  // " ++ [27880; 37322]%N ++ runes_of_ascii "
-    =
-        //
-  true ;  // trailing space 
-}
-
-packet  body  {	_x	,
-    zchar[65535 ]
-    Header @calculatedFrom( // trailing space 
-    """"  )
-`u8 x,`	,
-
-}
-    root packet 
-	//	t
-	  T	// trailing space 
-    {@tag( // trailing space 
-  	7
-) 
-@tag(
-	0
-    )
-@leftPad
-(  '0'
-)  // a // b
-    int64
-    x @lengthOf(  Packet )  ,
-
-    msg_type
-
-    stringy`" ++ [28040; 24687; 31867; 22411]%N ++ runes_of_ascii "` /// triple
-,
-
-    }	/// triple")).
-Eval vm_compute in ("<<<M861>>>" ++ check (runes_of_ascii "MetaData trueish
-    { char[]  i8i8 `" ++ [28040; 24687; 31867; 22411]%N ++ runes_of_ascii "` ,
-} packet calculatedFrom
-{ @calculatedFrom(""CRC32"")
-@lengthOf(u128 )
-    metadata // @lengthOf(
-stringy `u8 x,`
-, string
-i8i8@lengthOf( rootA
-    // `tick` ""quote"" 'q'
-    ) , @calculatedFrom(	""CRC32"" ) @calculatedFrom(	""packet"")@calculatedFrom(""""
-) zchar[42 ] body `" ++ [233]%N ++ runes_of_ascii "` , Packet , uint16  Logon ,
-rootA len
-`u8 x,` ,
-T @lengthOf(
-// a // b
-// " ++ [27880; 37322]%N ++ runes_of_ascii "
-T), @rightPad ( ) repeat char[ // @lengthOf(
-255 ]//
-x_y_z
-,repeat uint16 len
-,
-@rightPad
-    ( ) calculatedFrom charz `crlf
-line`,
-}
-")).
-Eval vm_compute in ("<<<M3849>>>" ++ check (runes_of_ascii "root packet pack {
-    @calculatedFrom(""`tick`"")
-    @calculatedFrom(""\n"")
-    @tag(0123456789)
-    match zchar as string_ {
-        [""packet""] : i8i8,
-        [0123456789, 7] : string_,
-        //x
-        // `tick` ""quote"" 'q'
-        0 : options1,
-        ""\" ++ [233]%N ++ runes_of_ascii """ : Foo,
-    },
-    @lengthOf(calculatedFrom)
-    Foo @lengthOf(x) `crlf
-        line`,
-    lengthOf @lengthOf(int),
-    T,
-    @lengthOf(rootA)
-    zchar[007] x `crlf
-        line`,
-    @calculatedFrom(""\n"")
-    repeat f64 chars,
-    matchKey _x,
-}")).
-Eval vm_compute in ("<<<M800>>>" ++ check (runes_of_ascii "options {  }packet Packet
-    { repeat
-zchar[ 0123456789 ]
-    crc , repeat zchar[	4294967296
-]Z9_ ,// packet A { u8 x, }
-rootA ,repeat Packet
-    { lengthOf{
-u8x `{ , }` , zchar[ 0123456789 ] lengthOf
-`{ , }` , // " ++ [27880; 37322]%N ++ runes_of_ascii "
-Header { repeat
-// c
-//x
-f32 As `line1
-line2`	,
-    charz
-    @calculatedFrom( ""1""
-) , } , },},
-i8//	t
-float
-@lengthOf( T// packet A { u8 x, }
-) ,@lengthOf(
-    metadata )
-@calculatedFrom( ""packet""
-    // a // b
-    ) @lengthOf( repeatCount ) repeat
-f32 Foo	, } 	 ")).
-Eval vm_compute in ("<<<M1354>>>" ++ check (runes_of_ascii "options { Packet = u8 ; }packet  metadata // @lengthOf(
-{ charz {	match asx
-    as
-A
+Eval vm_compute in ("<<<M1815>>>" ++ check (runes_of_ascii "
+options
 {
-[ ""\n"",
-    // " ++ [128512]%N ++ runes_of_ascii " emoji
-    ""a\""b"" ]
-:string_
-""a\\"" :float
-    // @lengthOf(
-    , [ 10 ] :
-// c
-// a // b
-leftPad ,
-255:
-Packet
-,[ ""a	b"", ""a	b"" , """ ++ [28040; 24687]%N ++ runes_of_ascii """	, 42 ,
-// " ++ [27880; 37322]%N ++ runes_of_ascii "
-// packet A { u8 x, }
-""a\\"" ] :
-    repeatCount , [  255	, """ ++ [128512]%N ++ runes_of_ascii """ ,
-0123456789 // trailing space 
-,
-""" ++ [233]%N ++ runes_of_ascii "t" ++ [233]%N ++ runes_of_ascii """ ]: a1} , } , }  packet o {@calculatedFrom( ""\n"" )
-repeat len
+    LittleEndian=false
+;
+
+ArrayPrefixLenType
+	=  u8
+
+    ; FixedStringPadChar ='0'; }
+    packet Order
+{ InNote94	{
+
+    f32 
+f1	, f64
+
+Side2
+,repeat InTail47
+	{
+char[] 
+seqNo
     ,
-// trailing space 
-//
-body Logon
+char[]
+
+Tail , char[]
+lastPx
+
+,},
+
+    }
+, zchar[ 7
+]
+    f1,
+u8
+    Side2  , } root	packet
+Reject
+
+    {  repeat
+
+    char[
+
+    4] Flags ,
+
+InPrice63
+{  InSeqno41
+	{ repeat  i8
+	OrderId
 ,
-    }")).
-Eval vm_compute in ("<<<M4543>>>" ++ check (runes_of_ascii "// @lengthOf(
-MetaData msg_type {
-}
 
-MetaData Logon {
-    i64 uint8x,
-    o u128,
-}
+    repeat	i32  clOrdID	, char[
 
-packet body {
-    @calculatedFrom(""a	b"")
-    uint8x ``,
-}
+    9] 
+tag7,
+	char[]
+    lastPx, }  , Order  ,uint8 Side2
+, } ,
+	}
 
-root packet roots {
-    repeat len f32a `crlf
-    line`,
-    @rightPad('\x00')
-    repeat i8i8 {
-        zchar @lengthOf(packetx) `a\`,
-        repeat msg_type,
-        char[] o `" ++ [233]%N ++ runes_of_ascii "`,
-        char[42] roots,
-        //x
-        // `tick` ""quote"" 'q'
-    },
-}
-
-MetaData pack {
-    repeatCount charz,
-}")).
-Eval vm_compute in ("<<<M821>>>" ++ check (runes_of_ascii "
-options { }options
-{ } options
-{ }
-    packet options1 {
-/// triple
-// @lengthOf(
-repeat stringy repeatCount	, int64 rootA
-    ,@lengthOf(
-    T)
-// trailing space 
-// @lengthOf(
-chars Foo `line1
-line2`, i64_ , repeat tag roots, @calculatedFrom(""CRC32""
-) //x
-@calculatedFrom( """ ++ [233]%N ++ runes_of_ascii "t" ++ [233]%N ++ runes_of_ascii """)
-a1 @calculatedFrom(
+")).
+Eval vm_compute in ("<<<M191>>>" ++ check (runes_of_ascii "packet x
+{ repeat
+    string_
+    { repeat asx	Foo
     /// triple
-    ""1"" )`two words` , }options {Logon =false uint8x	= ""x y""
-Header = ""a	b"" ;
-    calculatedFrom= true
+    ,int16 i8i8 , char[] matchKey ,
+// @lengthOf(
+// trailing space 
+match calculatedFrom as // a // b
+roots  { 3
+: x_y_z , }
+    , }
+, @lengthOf(x ) repeat o `say ""hi""`
+    ,//	t
+char[] string_	`" ++ [28040; 24687; 31867; 22411]%N ++ runes_of_ascii "`
+, @lengthOf( f32a )	match
+    Pad as
+    A //	t
+{ ""a	b"": u128 , [""\" ++ [233]%N ++ runes_of_ascii """ ,
+65535
+    , 255
+,""CRC32""
+,
+1 ]
+    : i8i8
+0123456789 : falsey //	t
+, } , }packet zchar { }
+")).
+Eval vm_compute in ("<<<M1826>>>" ++ check (runes_of_ascii "root packet pack {
+    match matchKey as int {
+        00 : metadata,
+        ""a\\"" : o,
+        ""// no comment"" : x,
+        [""packet""] : A,
+        [
+            ""\n"", 0123456789, 00, ""// no comment"", 007,
+            255, 1, 0
+        ] : metadata,
+        [00] : Pad,
+    },
+}// @lengthOf(
+
+MetaData tag {
+    uint64 i64_ `doc`,
 }
-")).
-Eval vm_compute in ("<<<M1153>>>" ++ check (runes_of_ascii "packet asx {@tag(// trailing space 
-00 )
-options1, string repeatCount @calculatedFrom( ""// no comment"" ) `// not a comment`,	@leftPad
-(
-    '0')
-@tag(
-    42) packetx @lengthOf(msg_type
+
+packet BodyLength {
+    repeat u32 u128,
+}")).
+Eval vm_compute in ("<<<M357>>>" ++ check (runes_of_ascii "options
+{
+// @lengthOf(
 // " ++ [128512]%N ++ runes_of_ascii " emoji
-/// triple
-) `{ , }` // packet A { u8 x, }
-,  }  packet
-roots { @tag(	1 ) // `tick` ""quote"" 'q'
-@tag( 1 ) @lengthOf( // @lengthOf(
-BodyLength ) char[ 0123456789
-]MetaDataX , /// triple
-} MetaData	string_ { }
+x = 10//
+; x_y_z//
+=
+    true	;
+Logon =
+    i32 T =
+    0 }
+MetaData
+f32a	{ zchar len,
+    }
+    options {string_
+// c
+//
+= zchar[
+007 ] ;
+x_y_z = '0'
+    ;
+}MetaData msg_type // " ++ [27880; 37322]%N ++ runes_of_ascii "
+{ lengthOf msg_type `two words`
+    ,	i64 crc , packetx  zchar
+`// not a comment`
+, string// c
+falsey `tab	here` , }
 ")).
-Eval vm_compute in ("<<<M3841>>>" ++ check (runes_of_ascii "root packet x {
-    @calculatedFrom(""a\\"")
-    zchar[42] float @calculatedFrom(""a\""b"") `
+Eval vm_compute in ("<<<M1513>>>" ++ check (runes_of_ascii "// top
+packet // c0
+FooBar // c1a
+  // c1b
+{ // c2
+u8 a , // c5a
+  // c5b
+} // c6a
+  // c6b
+packet // c7a
+  // c7b
+foo_bar
+    // c8
+{ // c9a
+  // c9b
+u16
+    // c10
+b // c11a
+  // c11b
+, }
+    // c13
+root // c14
+packet // c15
+R // c16
+{
+    // c17
+FooBar // c18
+, // c19
+foo_bar
+    // c20
+, } ")).
+Eval vm_compute in ("<<<M594>>>" ++ check (runes_of_ascii "root packet tag { }  packet MetaDataX{char[007	]
+// c
+/// triple
+asx  @calculatedFrom( ""a\""b""
+) `say ""hi""`// " ++ [27880; 37322]%N ++ runes_of_ascii "
+,  @tag(4294967296 )
+    char[1//x
+] packetx packetx @calculatedFrom(""a\""b""
+    ) ,
+// " ++ [128512]%N ++ runes_of_ascii " emoji
+// a // b
+@calculatedFrom(""" ++ [233]%N ++ runes_of_ascii "t" ++ [233]%N ++ runes_of_ascii """  ) repeat pack // " ++ [27880; 37322]%N ++ runes_of_ascii "
+,
+    } // c")).
+Eval vm_compute in ("<<<M526>>>" ++ check (runes_of_ascii "root packet tag { }  packet MetaDataX{char[repeat	]
+// c
+/// triple
+asx  @calculatedFrom( ""a\""b""
+) `say ""hi""`// " ++ [27880; 37322]%N ++ runes_of_ascii "
+,  @tag(4294967296 )
+    char[1//x
+] packetx @calculatedFrom(""a\""b""
+    ) ,
+// " ++ [128512]%N ++ runes_of_ascii " emoji
+// a // b
+@calculatedFrom(""" ++ [233]%N ++ runes_of_ascii "t" ++ [233]%N ++ runes_of_ascii """  ) repeat pack // " ++ [27880; 37322]%N ++ runes_of_ascii "
+,
+    } // c")).
+Eval vm_compute in ("<<<M580>>>" ++ check (runes_of_ascii "root packet tag { }  packet MetaDataX{char[007	]
+// c
+/// triple
+asx  @calculatedFrom( ""a\""b""
+) `say ""hi""`// " ++ [27880; 37322]%N ++ runes_of_ascii "
+,  @tag(4294967296 )
+    1 char[//x
+] packetx @calculatedFrom(""a\""b""
+    ) ,
+// " ++ [128512]%N ++ runes_of_ascii " emoji
+// a // b
+@calculatedFrom(""" ++ [233]%N ++ runes_of_ascii "t" ++ [233]%N ++ runes_of_ascii """  ) repeat pack // " ++ [27880; 37322]%N ++ runes_of_ascii "
+,
+    } // c")).
+Eval vm_compute in ("<<<M570>>>" ++ check (runes_of_ascii "root packet tag { }  packet MetaDataX{char[007	]
+// c
+/// triple
+asx  @calculatedFrom( ""a\""b""
+) `say ""hi""`// " ++ [27880; 37322]%N ++ runes_of_ascii "
+,  @tag() 4294967296
+    char[1//x
+] packetx @calculatedFrom(""a\""b""
+    ) ,
+// " ++ [128512]%N ++ runes_of_ascii " emoji
+// a // b
+@calculatedFrom(""" ++ [233]%N ++ runes_of_ascii "t" ++ [233]%N ++ runes_of_ascii """  ) repeat pack // " ++ [27880; 37322]%N ++ runes_of_ascii "
+,
+    } // c")).
+Eval vm_compute in ("<<<M546>>>" ++ check (runes_of_ascii "root packet tag { }  packet MetaDataX{char[007	]
+// c
+/// triple
+asx  @calculatedFrom( int8
+) `say ""hi""`// " ++ [27880; 37322]%N ++ runes_of_ascii "
+,  @tag(4294967296 )
+    char[1//x
+] packetx @calculatedFrom(""a\""b""
+    ) ,
+// " ++ [128512]%N ++ runes_of_ascii " emoji
+// a // b
+@calculatedFrom(""" ++ [233]%N ++ runes_of_ascii "t" ++ [233]%N ++ runes_of_ascii """  ) repeat pack // " ++ [27880; 37322]%N ++ runes_of_ascii "
+,
+    } // c")).
+Eval vm_compute in ("<<<M633>>>" ++ check (runes_of_ascii "root packet tag { }  packet MetaDataX{char[007	]
+// c
+/// triple
+asx  @calculatedFrom( ""a\""b""
+) `say ""hi""`// " ++ [27880; 37322]%N ++ runes_of_ascii "
+,  @tag(4294967296 )
+    char[1//x
+] packetx @calculatedFrom(""a\""b""
+    ) ,
+// " ++ [128512]%N ++ runes_of_ascii " emoji
+// a // b
+@calculatedFrom(""" ++ [233]%N ++ runes_of_ascii "t" ++ [233]%N ++ runes_of_ascii """  )  pack // " ++ [27880; 37322]%N ++ runes_of_ascii "
+,
+    } // c")).
+Eval vm_compute in ("<<<M1758>>>" ++ check (runes_of_ascii "root packet calculatedFrom {
+    repeat Header,
+}
+
+MetaData Header {
+    zchar[10] As,// trailing space 
+    string chars,
+    crc Logon `u8 x,`,
+    Z9_ Logon,
+}
+
+packet trueish {
+}
+
+MetaData A {
+}
+
+options {
+    options1 = ' ';//	t
+}")).
+Eval vm_compute in ("<<<M115>>>" ++ check (runes_of_ascii "
+MetaData stringy
+{
+    i16
+    f32a , string  crc `crlf
+line`
+, f32 o `doc` , float64
+calculatedFrom , }	packet o
+{ @leftPad // `tick` ""quote"" 'q'
+( )string_
+    @lengthOf(packetx // `tick` ""quote"" 'q'
+), }
+")).
+Eval vm_compute in ("<<<M354>>>" ++ check (runes_of_ascii "MetaData u128 { char[]falsey ,u8  roots	, i8
+u `doc`, packetx int ,
+}// c
+packet asx
+{ }
+options	{ matchKey= ""// no comment"" Logon
+= char[]
+    u128=
+false options1 =' '
+len
+    = '\x00'  }")).
+Eval vm_compute in ("<<<M1529>>>" ++ check (runes_of_ascii "
+
+  packet
+	u128 
+{ u8 a,
+
+    }
+
+root packet	Msg
+{
+	u8
+k,
+
+u24 {
+u8
+Hi
+,u16	Lo	,	}  , 
+repeat	i24
+    {
+	u32
+	q ,
+}
+
+,
+u128
+
+    ,
+u16	float32x
+
+    ,  string
+
+s
+
+,
+    } ")).
+Eval vm_compute in ("<<<M476>>>" ++ check (runes_of_ascii "packet
+    // `tick` ""quote"" 'q'
+    crc
+// packet A { u8 x, }
+//	t
+{
+u32 a1 ,
+    // trailing space 
+    roots
+charz //
+`two words`,	}
+    MetaData caf" ++ [233]%N ++ runes_of_ascii "_1 {
+} /// triple")).
+Eval vm_compute in ("<<<M692>>>" ++ check (runes_of_ascii "root packet len // trailing space 
+{
+// " ++ [27880; 37322]%N ++ runes_of_ascii "
+//	t
+10 char[
+] metadata	@lengthOf( o ) `crlf
+line`,
+    @rightPad
+( ' '
+) string
+    Header @calculatedFrom( ""a\\""
+    ), }
+")).
+Eval vm_compute in ("<<<M718>>>" ++ check (runes_of_ascii "root packet { // trailing space 
+len
+// " ++ [27880; 37322]%N ++ runes_of_ascii "
+//	t
+char[10
+] metadata	@lengthOf( o ) `crlf
+line`,
+    @rightPad
+( ' '
+) string
+    Header @calculatedFrom( ""a\\""
+    ), }
+")).
+Eval vm_compute in ("<<<M716>>>" ++ check (runes_of_ascii "root packet len // trailing space 
+{
+// " ++ [27880; 37322]%N ++ runes_of_ascii "
+//	t
+char[10
+] metadata	@lengthOf( o ) `crlf
+line`,
+    @rightPad
+( ' '
+) string
+    Header @calculatedFrom( ""a\\""
+    ),")).
+Eval vm_compute in ("<<<M34>>>" ++ check (runes_of_ascii "// " ++ [27880; 37322]%N ++ runes_of_ascii "
+root packet chars { @rightPad(
+    //	t
+    )
+    u8x @calculatedFrom( ""a	b"" ) `line1
+line2` ,
+repeat
+tag {
+    repeat options1 f32a
+    `" ++ [28040; 24687; 31867; 22411]%N ++ runes_of_ascii "` , },	}
+")).
+Eval vm_compute in ("<<<M1791>>>" ++ check (runes_of_ascii "
+root
+
+    packet
+matchKey
+{ zchar[  3
+	] pack 
+@calculatedFrom(
+	""a	b""
+)`doc` ,
+    // c
+    } options
+	{ }MetaData  A {  int8	msg_type	,
+	}")).
+Eval vm_compute in ("<<<M324>>>" ++ check (runes_of_ascii "MetaData metadata {
+//x
+// " ++ [128512]%N ++ runes_of_ascii " emoji
+}
+    root packet chars {
+    @lengthOf(Packet
+    // @lengthOf(
+    ) // c
+repeat int16 roots `
+` ,	}")).
+Eval vm_compute in ("<<<M1721>>>" ++ check (runes_of_ascii "MetaData
+float { 
+float64
+
+    charz
+
+    `
+`
+	,	} 
+root
+packet chars
+{ @rightPad
+	(  '0'  
+      // c
+		)  Foo
+    ,  }
+
+")).
+Eval vm_compute in ("<<<M1221>>>" ++ check (runes_of_ascii "// c
+root packet matchKey { zchar[ 3 ] pack @calculatedFrom( ""a	b"" ) `doc` , } options { } MetaData A { int8 msg_type , }")).
+Eval vm_compute in ("<<<M1254>>>" ++ check (runes_of_ascii "root packet matchKey { zchar[ 3 ] pack @calculatedFrom( ""a	b"" ) `doc` , } options {
+// c
+} MetaData A { int8 msg_type , }")).
+Eval vm_compute in ("<<<M2043>>>" ++ check (runes_of_ascii "packet  A
+{
+	match k
+
+as
+
+n	{
+    [ ""a""
+    , ""bb""	, 
+""c c""  , 
+""d"" ,
+
+""e"" , ""f""
+
+,
+""g""
+, ""h""	] :
+B	2 : C
+
+    },}
+
+")).
+Eval vm_compute in ("<<<M889>>>" ++ check (runes_of_ascii "packet A {
+  match k as n {
+    [""a"", ""bb"", ""c c"", ""d"", ""e"", ""f"", ""g"", ""h"", ""i"", ""j"", ""k""] : B
+    2 : C
+  },
+}")).
+Eval vm_compute in ("<<<M35>>>" ++ check (runes_of_ascii "options { body = 42 ;Logon
+// @lengthOf(
+// " ++ [27880; 37322]%N ++ runes_of_ascii "
+=
+    '0'
+    ; metadata=
+""" ++ [128512]%N ++ runes_of_ascii """; Foo =true//
+i64_
+='\x00'  }
+")).
+Eval vm_compute in ("<<<M1925>>>" ++ check (runes_of_ascii "
+MetaData
+    float { // c
+      float64
+	charz`
+`
+,
+
+}root
+packet	chars
+{ @rightPad(
+
+'0')
+	Foo	, 
+} ")).
+Eval vm_compute in ("<<<M1675>>>" ++ check (runes_of_ascii "MetaData float {
+    float64 charz `
         `,
 }
 
-MetaData o {
-    int8 BodyLength,
-    string len,
-    string len,
-    float falsey,
-    T float,
-}
-
-MetaData pack {
-    /// triple
-    charz o `// not a comment`,
-    float64 f32a `tab	here`,
-    int32 u8x `// not a comment`,
-    char[10] a1,
-    float32 options1,
-}// `tick` ""quote"" 'q'")).
-Eval vm_compute in ("<<<M4010>>>" ++ check (runes_of_ascii "packet
-
-i8i8 { 
-match  tag
-as  i8i8  {	""" ++ [28040; 24687]%N ++ runes_of_ascii """
-: pack , 3  : rootA	, [
-
-1 
-,//	t
-
-  3] :
-    falsey
-
-, }  ,
-// " ++ [128512]%N ++ runes_of_ascii " emoji
-// trailing space 
-
-  zchar[ 10 
-]string_
-    ,  // @lengthOf(
-
-} packet
-
-    falsey {string 
-chars
-,  uint8x	, @lengthOf( packetx
-    )  char[]Packet, } 
-MetaData a1
-{
-	chars 
-roots
-        //
-`crlf
-line`
-
-, /// triple
-
-asx
-zchar
-
-    ,
-
-    } ")).
-Eval vm_compute in ("<<<M113>>>" ++ check (runes_of_ascii "packet body { Pad {a1`crlf
-line`
-    , zchar[ 007] a1 ,char[10 ] x_y_z  ,
-repeat
-zchar[ 1  ] metadata `u8 x,` , } , string  trueish
-,repeat uint8x u ,	@tag( /// triple
-007 ) calculatedFrom
-{repeat BodyLength
-`doc` ,
-    }/// triple
-, int64 lengthOf,/// triple
-@lengthOf(
-leftPad) @calculatedFrom( ""x y"" ) @calculatedFrom( // " ++ [27880; 37322]%N ++ runes_of_ascii "
-""\" ++ [233]%N ++ runes_of_ascii """ )  falsey a1 , }")).
-Eval vm_compute in ("<<<M4561>>>" ++ check (runes_of_ascii "options {
-    string_ = true;
-}
-
-options {
-    T = false
-}
-
-packet u8x {
-    @lengthOf(int)
-    zchar[255] BodyLength,
-}// trailing space 
-
-root packet f32a {
-}
-
-packet roots {
+root packet chars {
+    @rightPad('0')
     Foo,
-    repeat char[007] Pad,
-    repeat int8 packetx,
-    match Z9_ as T {
-        00 : A,
-        ""a\""b"" : falsey,
-        //
-        ""CRC32"" : a1,
-    },
 }")).
-Eval vm_compute in ("<<<M3781>>>" ++ check (runes_of_ascii "options{} 
-root
-    // a // b
-      packet  x //	t
-      {	match
-len
-as
+Eval vm_compute in ("<<<M900>>>" ++ check (runes_of_ascii "packet A {
+  match k as n {
+    [1, 22, 007, 4, 5, 66, 7, 8, 9, 10, 11, 12] : B
+    2 : C
+  },
+}")).
+Eval vm_compute in ("<<<M836>>>" ++ check (runes_of_ascii "packet A {
+  match k as n {
+    [""a"", ""bb"", ""c c"", ""d"", ""e"", ""f"", ""g""] : B,
+    2 : C
+  },
+}")).
+Eval vm_compute in ("<<<M1181>>>" ++ check (runes_of_ascii "MetaData
+// c
+float { float64 charz `
+` , } root packet chars { @rightPad ( '0' ) Foo , }")).
+Eval vm_compute in ("<<<M1213>>>" ++ check (runes_of_ascii "MetaData float { float64 charz `
+` , } root packet chars { @rightPad ( '0' ) Foo
+// c
+, }")).
+Eval vm_compute in ("<<<M1424>>>" ++ check (runes_of_ascii "packet chars { } packet MetaDataX { @tag( 42 ) i16 string_ , repeat x // c
+`say ""hi""` , }")).
+Eval vm_compute in ("<<<M841>>>" ++ check (runes_of_ascii "packet A {
+  match k as n {
+    [""a"", 22, ""c c"", 4, ""e"", 66, ""g""] : B
+    2 : C
+  },
+}")).
+Eval vm_compute in ("<<<M1154>>>" ++ check (runes_of_ascii "packet metadata { Logon { A `" ++ [28040; 24687; 31867; 22411]%N ++ runes_of_ascii "` , tag o , } , zchar len `// not a comment` // c
+, }")).
+Eval vm_compute in ("<<<M1359>>>" ++ check (runes_of_ascii "packet o { repeat Logon uint8x , } options {
+// c
+asx = zchar[ 3 ] stringy = '\x00' }")).
+Eval vm_compute in ("<<<M2007>>>" ++ check (runes_of_ascii "packet A {
+    B b `
+        x`,
+    B `
+        x`,
+    repeat B bs `
+        x`,
+}")).
+Eval vm_compute in ("<<<M1320>>>" ++ check (runes_of_ascii "MetaData body { i64 pack `it's` , }
+// c
+packet stringy { int16 calculatedFrom , }")).
+Eval vm_compute in ("<<<M1089>>>" ++ check (runes_of_ascii "packet A { u16 // a
+ len // b
+ @lengthOf( // c
+ body // d
+ ) // e
+ `d` // f
+ , }")).
+Eval vm_compute in ("<<<M83>>>" ++ check (runes_of_ascii "MetaData
+Packet
+{
+    }options { Z9_ =
+char[] ; _x=
+'0';
+body
+=
+false }
+")).
+Eval vm_compute in ("<<<M788>>>" ++ check (runes_of_ascii "packet A {
+  match k as n {
+    [""a"", 22, ""c c""] : B,
+    2 : C
+  },
+}")).
+Eval vm_compute in ("<<<M937>>>" ++ check (runes_of_ascii "packet A {
+    B b `a
+
+b`,
+    B `a
+
+b`,
+    repeat B bs `a
+
+b`,
+}")).
+Eval vm_compute in ("<<<M820>>>" ++ check (runes_of_ascii "packet A { Inner { match k as n { [1,22,007,4,5] : B, }, }, }")).
+Eval vm_compute in ("<<<M1280>>>" ++ check (runes_of_ascii "packet x { // c
+@rightPad ( ) repeat roots Logon `doc` , }")).
+Eval vm_compute in ("<<<M1065>>>" ++ check (runes_of_ascii "packet A { match k as n { 1 : B // a // b 2 : C }, }")).
+Eval vm_compute in ("<<<M1437>>>" ++ check (runes_of_ascii "
+
+  root
+packet P 
+{
+char
+	c  ,
+	u8
 
 x
-
-    { [7  ,
-42
-	,007,	//x
-  255// trailing space 
-	,""// no comment""
-// `tick` ""quote"" 'q'
-	// " ++ [128512]%N ++ runes_of_ascii " emoji
-  ]: x_y_z
-,
-	""`tick`"" :
-
-u128 ,3  :
-string_ 
-  /// triple
-, [
-    ""CRC32""
-    ] :trueish,  4294967296
-: Foo
-,
-[
-
-0 
-] :lengthOf 
-}
-,
-}
-
-")).
-Eval vm_compute in ("<<<M1963>>>" ++ check (runes_of_ascii "MetaData
-    u { }  options {
-// c
-// @lengthOf(
-float = int8 ;rootA =false ; As =	int16 // `tick` ""quote"" 'q'
-repeatCount
-    // trailing space 
-    =
-    int16
-; @leftPad =
-    //	t
-    '\x00' ; } options	{
-    repeatCount
-= 0
-u128
-    //
-    = false ; i64_
-// trailing space 
-// `tick` ""quote"" 'q'
-= '0' ; //	t
-}
-")).
-Eval vm_compute in ("<<<M1921>>>" ++ check (runes_of_ascii "MetaData
-    u { }  options {
-// c
-// @lengthOf(
-float = int8 ;rootA =false ; ; As =	int16 // `tick` ""quote"" 'q'
-repeatCount
-    // trailing space 
-    =
-    int16
-; u8x =
-    //	t
-    '\x00' ; } options	{
-    repeatCount
-= 0
-u128
-    //
-    = false ; i64_
-// trailing space 
-// `tick` ""quote"" 'q'
-= '0' ; //	t
-}
-")).
-Eval vm_compute in ("<<<M2059>>>" ++ check (runes_of_ascii "MetaData
-    u { }  options {
-// c
-// @lengthOf(
-float = int8 ;rootA =false ; As =	int16 // `tick` ""quote"" 'q'
-repeatCount
-    // trailing space 
-    =
-    int16
-; u8x =
-    //	t
-    '\x00' ; } options	{
-    repeatCount
-""= 0
-u128
-    //
-    = false ; i64_
-// trailing space 
-// `tick` ""quote"" 'q'
-= '0' ; //	t
-}
-")).
-Eval vm_compute in ("<<<M1962>>>" ++ check (runes_of_ascii "MetaData
-    u { }  options {
-// c
-// @lengthOf(
-float = int8 ;rootA =false ; As =	int16 // `tick` ""quote"" 'q'
-repeatCount
-    // trailing space 
-    =
-    int16
-; = u8x
-    //	t
-    '\x00' ; } options	{
-    repeatCount
-= 0
-u128
-    //
-    = false ; i64_
-// trailing space 
-// `tick` ""quote"" 'q'
-= '0' ; //	t
-}
-")).
-Eval vm_compute in ("<<<M1900>>>" ++ check (runes_of_ascii "MetaData
-    u { }  options {
-// c
-// @lengthOf(
-float = int8 rootA =false ; As =	int16 // `tick` ""quote"" 'q'
-repeatCount
-    // trailing space 
-    =
-    int16
-; u8x =
-    //	t
-    '\x00' ; } options	{
-    repeatCount
-= 0
-u128
-    //
-    = false ; i64_
-// trailing space 
-// `tick` ""quote"" 'q'
-= '0' ; //	t
-}
-")).
-Eval vm_compute in ("<<<M1938>>>" ++ check (runes_of_ascii "MetaData
-    u { }  options {
-// c
-// @lengthOf(
-float = int8 ;rootA =false ; As =	[ // `tick` ""quote"" 'q'
-repeatCount
-    // trailing space 
-    =
-    int16
-; u8x =
-    //	t
-    '\x00' ; } options	{
-    repeatCount
-= 0
-u128
-    //
-    = false ; i64_
-// trailing space 
-// `tick` ""quote"" 'q'
-= '0' ; //	t
-}
-")).
-Eval vm_compute in ("<<<M4432>>>" ++ check (runes_of_ascii "// top
-options {
-    // c1a
-    // c1b
-    FixedStringPadChar = '0';// c5
-}// c6
-
-packet Q {
-    // c9
-    zchar[4] z,
-    // c14
-    @rightPad('\x00')
-    // c18
-    char[3] n,
-    char[5] d,
-    // c28
-}
-
-root packet R {
-    // c33
-    Q,// c35
-    zchar[8] top,
-    repeat zchar[2] zs,// c46
-}
-// c47")).
-Eval vm_compute in ("<<<M500>>>" ++ check (runes_of_ascii "root
-packet u8x {// @lengthOf(
-i16
-    metadata @lengthOf(
-metadata
-) `u8 x,`
-    ,zchar[ 7 ] stringy@calculatedFrom( ""abc""  )
-    `" ++ [233]%N ++ runes_of_ascii "` // trailing space 
-, @rightPad
-( // a // b
-'0' )
-match Header as
-f32a { //	t
-""" ++ [28040; 24687]%N ++ runes_of_ascii """// c
-:calculatedFrom
-,[ 10
-]
-:o , ""// no comment"" :As ""\" ++ [233]%N ++ runes_of_ascii """
-: rootA ,},
-}")).
-Eval vm_compute in ("<<<M3804>>>" ++ check (runes_of_ascii "// trailing space 
-packet pack {
-    @lengthOf(Pad)
-    char[] msg_type,
-}
-
-options {
-    // " ++ [128512]%N ++ runes_of_ascii " emoji
-    // " ++ [128512]%N ++ runes_of_ascii " emoji
-    chars = int32;//
-    chars = ""CRC32""
-}
-
-packet f32a {
-    @calculatedFrom(""a\""b"")
-    zchar @lengthOf(o),
-    int32 o,
-    repeat int64 zchar `" ++ [28040; 24687; 31867; 22411]%N ++ runes_of_ascii "`,
-}/// triple")).
-Eval vm_compute in ("<<<M1078>>>" ++ check (runes_of_ascii "root packet Logon { string MetaDataX @calculatedFrom( ""\" ++ [233]%N ++ runes_of_ascii """ )// a // b
-`two words` , @leftPad
-( '\x00' //x
-) len a1 , // @lengthOf(
-@tag( 0123456789 )
-    repeat char[]
-f32a , repeat uint16 pack
-    ,}
-MetaData
-rootA { BodyLength Z9_ `{ , }` ,
-    zchar[65535 ] u ,
-}
-")).
-Eval vm_compute in ("<<<M613>>>" ++ check (runes_of_ascii "MetaData BodyLength {  zchar[ 00 ]a1 ,
-i64 A
-`" ++ [233]%N ++ runes_of_ascii "` , int8 i8i8
-`doc`
-,char[ 1 ]Header
-``// " ++ [128512]%N ++ runes_of_ascii " emoji
-, } options
-    {asx
-=
-false;
-    T=	""CRC32""u8x
-= ' '
-    float =
-3 } packet o /// triple
-{ @rightPad( '0'
-    // a // b
-    ) calculatedFrom `crlf
-line` ,}")).
-Eval vm_compute in ("<<<M1535>>>" ++ check (runes_of_ascii "packet
-//	t
-// trailing space 
-_x {
-// packet A { u8 x, }
-// c
-char[
-3
-    ] u8x @lengthOf(
-u8x match , @calculatedFrom(""" ++ [128512]%N ++ runes_of_ascii """ // @lengthOf(
-)
-i16	Foo
-@lengthOf(	string_
-    )`doc`	, repeat	i64 metadata , @lengthOf( string_
-) i8 // c
-u  `line1
-line2`	,
-}
-")).
-Eval vm_compute in ("<<<M1648>>>" ++ check (runes_of_ascii "packet
-//	t
-// trailing space 
-_x {
-// packet A { u8 x, }
-// c
-char[
-3
-    ] u8x @lengthOf(
-u8x ) , @calculatedFrom(""" ++ [128512]%N ++ runes_of_ascii """ // @lengthOf(
-)
-i16	Foo
-@lengthOf(	string_
-    )`doc`	, repeat	i64 metadata , @lengthOf( string_
-) i8 // c
-u  `line1
-line2`	,
-} }
-")).
-Eval vm_compute in ("<<<M1514>>>" ++ check (runes_of_ascii "packet
-//	t
-// trailing space 
-_x {
-// packet A { u8 x, }
-// c
-char[
-3
-    u8x ] @lengthOf(
-u8x ) , @calculatedFrom(""" ++ [128512]%N ++ runes_of_ascii """ // @lengthOf(
-)
-i16	Foo
-@lengthOf(	string_
-    )`doc`	, repeat	i64 metadata , @lengthOf( string_
-) i8 // c
-u  `line1
-line2`	,
-}
-")).
-Eval vm_compute in ("<<<M3662>>>" ++ check (runes_of_ascii "options {
-    LittleEndian = true;
-}
-packet Logon {
-    u8 x,
-    string user,
-}
-packet Logout {
-    u16 reason,
-}
-packet Empty {
-}
-root packet Frame {
-    u16 MsgType,
-    u16 BodyLen @lengthOf(Body),
-    u8 flags,
-    Logon Body,
-    u32 trailer,
-}
-")).
-Eval vm_compute in ("<<<M781>>>" ++ check (runes_of_ascii "
-packet As {
-@calculatedFrom(""" ++ [28040; 24687]%N ++ runes_of_ascii """ ) @rightPad ( ' '
-)@leftPad(
-    ) rootA `crlf
-line` , }
-options {len=0
-; Z9_= ""\n"" ;repeatCount
-=
-    //x
-    ""// no comment"" ; /// triple
-calculatedFrom =
-int64  chars = ""\n"" }	options
-{ // trailing space 
-}")).
-Eval vm_compute in ("<<<M1612>>>" ++ check (runes_of_ascii "packet
-//	t
-// trailing space 
-_x {
-// packet A { u8 x, }
-// c
-char[
-3
-    ] u8x @lengthOf(
-u8x ) , @calculatedFrom(""" ++ [128512]%N ++ runes_of_ascii """ // @lengthOf(
-)
-i16	Foo
-@lengthOf(	string_
-    )`doc`	, repeat	i64 metadata ,  string_
-) i8 // c
-u  `line1
-line2`	,
-}
-")).
-Eval vm_compute in ("<<<M4156>>>" ++ check (runes_of_ascii "
-packet
-
-    Foo {	@tag( 0 )
-    @lengthOf( 
-Packet 
-	// packet A { u8 x, }
-    // packet A { u8 x, }
-	)
-zchar[ 65535
-    ]	chars  `it's`
 , 
-float
-
-    @lengthOf(
-    repeatCount
-    )
-
-`line1
-line2`
-
-    , } options  {
-
-} ")).
-Eval vm_compute in ("<<<M260>>>" ++ check (runes_of_ascii "
-packet
-crc{ } options
-{ len= '0' } packet uint8x {T  charz `u8 x,` ,
-}
-    MetaData  packetx //	t
-{
-// `tick` ""quote"" 'q'
-// trailing space 
-} options
-    { Header
-    =""CRC32""
-;
-    charz =
-    string MetaDataX
-=
-true ;}
-")).
-Eval vm_compute in ("<<<M3537>>>" ++ check (runes_of_ascii "// top
-packet // c0a
-  // c0b
-Inner // c1
-{ // c2
-u8 a // c4a
-  // c4b
-, // c5a
-  // c5b
-} root // c7a
-  // c7b
-packet
-    // c8
-P
-    // c9
-{ repeat Inner items // c13a
-  // c13b
-, // c14
-u8 x
-    // c16
-, // c17
-} ")).
-Eval vm_compute in ("<<<M1702>>>" ++ check (runes_of_ascii "options { trueish = ""`tick`"" ; string_ string_= """ ++ [233]%N ++ runes_of_ascii "t" ++ [233]%N ++ runes_of_ascii """
-    // c
-    } root
-    packet body { stringy @calculatedFrom(
-""a	b"" ) `line1
-line2` , }
-packet Logon {
-    @leftPad(
-    ' ' ) //	t
-u16 string_ `u8 x,` ,
 }
 ")).
-Eval vm_compute in ("<<<M79>>>" ++ check (runes_of_ascii "root packet Foo {i16 BodyLength `// not a comment`
-    // c
-    ,
-    //x
-    }options { // packet A { u8 x, }
-} options
-    {Z9_ = // trailing space 
-false msg_type //
-=
-true f32a = ' ' zchar  =""`tick`"";}
-")).
-Eval vm_compute in ("<<<M1842>>>" ++ check (runes_of_ascii "options { truei''sh = ""`tick`"" ; string_= """ ++ [233]%N ++ runes_of_ascii "t" ++ [233]%N ++ runes_of_ascii """
-    // c
-    } root
-    packet body { stringy @calculatedFrom(
-""a	b"" ) `line1
-line2` , }
-packet Logon {
-    @leftPad(
-    ' ' ) //	t
-u16 string_ `u8 x,` ,
-}
-")).
-Eval vm_compute in ("<<<M1713>>>" ++ check (runes_of_ascii "options { trueish = ""`tick`"" ; string_= }
-    // c
-    """ ++ [233]%N ++ runes_of_ascii "t" ++ [233]%N ++ runes_of_ascii """ root
-    packet body { stringy @calculatedFrom(
-""a	b"" ) `line1
-line2` , }
-packet Logon {
-    @leftPad(
-    ' ' ) //	t
-u16 string_ `u8 x,` ,
-}
-")).
-Eval vm_compute in ("<<<M1349>>>" ++ check (runes_of_ascii "
-root
-    packet x_y_z{@lengthOf( _x ) _x  @lengthOf( trueish)	,} packet
-    BodyLength {// packet A { u8 x, }
-}
-    // " ++ [128512]%N ++ runes_of_ascii " emoji
-    MetaData // @lengthOf(
-a1 { Pad
-    repeatCount	,i16 zchar `` ,//	t
-}")).
-Eval vm_compute in ("<<<M1616>>>" ++ check (runes_of_ascii "packet
-//	t
-// trailing space 
-_x {
-// packet A { u8 x, }
-// c
-char[
-3
-    ] u8x @lengthOf(
-u8x ) , @calculatedFrom(""" ++ [128512]%N ++ runes_of_ascii """ // @lengthOf(
-)
-i16	Foo
-@lengthOf(	string_
-    )`doc`	, repeat	i64 metadata ,")).
-Eval vm_compute in ("<<<M52>>>" ++ check (runes_of_ascii "  root packet _x// " ++ [128512]%N ++ runes_of_ascii " emoji
-{@lengthOf(// c
-Packet ) float32 stringy  @calculatedFrom(
-""x y"" ) `say ""hi""`, match Pad as
-x_y_z{ ""a\\"" : float , 65535 : stringy 007: /// triple
-uint8x ,
-    } , }
-")).
-Eval vm_compute in ("<<<M4062>>>" ++ check (runes_of_ascii "root packet Foo {
-    i16 BodyLength `// not a comment`,
-    //x
-}
-
-options {
-    // packet A { u8 x, }
-}
-
-options {
-    Z9_ = false
-    msg_type = true
-    f32a = ' '
-    zchar = ""`tick`"";
-}")).
-Eval vm_compute in ("<<<M4096>>>" ++ check (runes_of_ascii "MetaData lengthOf {
-    char[0123456789] calculatedFrom,
-    char[0] options1,
-}
-
-MetaData repeatCount {
-    // packet A { u8 x, }
-    u64 len,
-    stringy x_y_z `it's`,
-    f32 As,
-}")).
-Eval vm_compute in ("<<<M4441>>>" ++ check (runes_of_ascii "  packet
-    A	//
-	{
-    @tag( 255
-	) @lengthOf( 
-// packet A { u8 x, }
-	//
-	x
-)u	`crlf
-line`
-
-    , repeat
-	body	{	zchar[ 00
-        //	t
-	  ]  crc `a\` , }  // c
-
-	,
-}")).
-Eval vm_compute in ("<<<M1836>>>" ++ check (runes_of_ascii "options { trueish = ""`tick`"" ; string_= """ ++ [233]%N ++ runes_of_ascii "t" ++ [233]%N ++ runes_of_ascii """
-    // c
-    } root
-    packet body { stringy @calculatedFrom(
-""a	b"" ) `line1
-line2` , }
-packet Logon {
-    @leftPad(
-    ' ")).
-Eval vm_compute in ("<<<M4492>>>" ++ check (runes_of_ascii "root	packet  rootA 
-
-    /// triple
-    //	t
-	{
-
-@lengthOf(
-	A
-) zchar[ 65535  ]
-	len`a\`, }
-	root
-packet
-    packetx	{  uint8 
-i8i8
-
-    ,
-} 
-        // c
- 
-")).
-Eval vm_compute in ("<<<M2077>>>" ++ check (runes_of_ascii "options options{
-_x
-= true
-} options
-{ o	= /// triple
-false
-    ; chars
-= ""\n"" } root packet	Pad
-/// triple
-// packet A { u8 x, }
-{	chars
-    // a // b
-    ,}")).
-Eval vm_compute in ("<<<M2172>>>" ++ check (runes_of_ascii "options{
-_x
-= true
-} options
-{ o	= /// triple
-false
-    ; chars
-= ""\n"" } root packet	Pad
-/// triple
-// packet A { u8 x, }
-uint64	chars
-    // a // b
-    ,}")).
-Eval vm_compute in ("<<<M1091>>>" ++ check (runes_of_ascii "// " ++ [128512]%N ++ runes_of_ascii " emoji
-packet// @lengthOf(
-string_ {@calculatedFrom(
-""" ++ [233]%N ++ runes_of_ascii "t" ++ [233]%N ++ runes_of_ascii """) repeat
-    i64 MetaDataX  , u64 i8i8
-    `a\`
-,
-    As
-//
-// " ++ [27880; 37322]%N ++ runes_of_ascii "
-, // packet A { u8 x, }
-}
-")).
-Eval vm_compute in ("<<<M2201>>>" ++ check (runes_of_ascii "options{
-_x
-= true
-} \ options
-{ o	= /// triple
-false
-    ; chars
-= ""\n"" } root packet	Pad
-/// triple
-// packet A { u8 x, }
-{	chars
-    // a // b
-    ,}")).
-Eval vm_compute in ("<<<M2199>>>" ++ check (runes_of_ascii "options{
-_x
-= true
-} options
-{ o	= /// triple
-false
-    ; chars
-= '""\n"" } root packet	Pad
-/// triple
-// packet A { u8 x, }
-{	chars
-    // a // b
-    ,}")).
-Eval vm_compute in ("<<<M2141>>>" ++ check (runes_of_ascii "options{
-_x
-= true
-} options
-{ o	= /// triple
-false
-    ; chars
-""\n"" = } root packet	Pad
-/// triple
-// packet A { u8 x, }
-{	chars
-    // a // b
-    ,}")).
-Eval vm_compute in ("<<<M2169>>>" ++ check (runes_of_ascii "options{
-_x
-= true
-} options
-{ o	= /// triple
-false
-    ; chars
-= ""\n"" } root packet	Pad
-/// triple
-// packet A { u8 x, }
-	chars
-    // a // b
-    ,}")).
-Eval vm_compute in ("<<<M2079>>>" ++ check (runes_of_ascii "f64{
-_x
-= true
-} options
-{ o	= /// triple
-false
-    ; chars
-= ""\n"" } root packet	Pad
-/// triple
-// packet A { u8 x, }
-{	chars
-    // a // b
-    ,}")).
-Eval vm_compute in ("<<<M4409>>>" ++ check (runes_of_ascii "
-options{	x_y_z = """ ++ [128512]%N ++ runes_of_ascii """
-
-    /// triple
-// @lengthOf(
-	options1 =  ""a\\""
-
-    ;	x_y_z
-    = 
-255 ;
-    }//x
-packet 
-charz {} 	 // trailing space ")).
-Eval vm_compute in ("<<<M1116>>>" ++ check (runes_of_ascii "//x
-options {
-    pack = ""{,}"" ; asx = 65535 ; u
-= zchar[ 007 ] ;
-    // trailing space 
-    i8i8
-=char[]
-As //x
-=' ' } // packet A { u8 x, }")).
-Eval vm_compute in ("<<<M4001>>>" ++ check (runes_of_ascii "MetaData Z9_ {
-
-}packet
-lengthOf	{  @tag(
-00
-
-)
-    u32 
-trueish , // trailing space 
-		repeat
-string
-
-roots 
-`doc` ,
-    }	// " ++ [128512]%N ++ runes_of_ascii " emoji")).
-Eval vm_compute in ("<<<M12>>>" ++ check (runes_of_ascii "packet
-    charz //
-{ @rightPad( '0')
-repeat
-    //x
-    Packet//x
-msg_type `" ++ [233]%N ++ runes_of_ascii "`	, } options {repeatCount
-= false falsey  = int64
-}")).
-Eval vm_compute in ("<<<M3547>>>" ++ check (runes_of_ascii "packet  B
-{
-    u8
-a
-
-    ,
-}root
-    packet P {
-
-u8 K
-
-,
-	u64
-L
-
-@lengthOf(	Body ) ,	match
-K 
-as
-Body{
-	1
-:
-
-B,} 
-,
-}
-")).
-Eval vm_compute in ("<<<M1450>>>" ++ check (runes_of_ascii "
-packet
-    falsey { Header@calculatedFrom(""packet""  ) , char[
-    0123456789 options packetx
-    , } // `tick` ""quote"" 'q'")).
-Eval vm_compute in ("<<<M3319>>>" ++ check (runes_of_ascii "root packet matchKey {
-// c
-zchar[ 3 ] pack @calculatedFrom( ""a	b"" ) `doc` , } options { } MetaData A { int8 msg_type , }")).
-Eval vm_compute in ("<<<M3351>>>" ++ check (runes_of_ascii "root packet matchKey { zchar[ 3 ] pack @calculatedFrom( ""a	b"" ) `doc` , } options { } MetaData A {
-// c
-int8 msg_type , }")).
-Eval vm_compute in ("<<<M4613>>>" ++ check (runes_of_ascii "packet
-
-A
-{ 
-match
-
-    k  as 
-n
-{ [
-    ""a""
-,
-	22	,
-
-""c c""
-    ,
-	4 
-,
-""e""  ,66	, ""g""
-,
-8
-
-]	:
-
-B , 2:
-C 
-} ,} ")).
-Eval vm_compute in ("<<<M1434>>>" ++ check (runes_of_ascii "
-packet
-    falsey { Header@calculatedFrom(""packet""  ) char[ ,
-    0123456789 ] packetx
-    , } // `tick` ""quote"" 'q'")).
-Eval vm_compute in ("<<<M4231>>>" ++ check (runes_of_ascii "
-packet
-// @lengthOf(
-
-// " ++ [128512]%N ++ runes_of_ascii " emoji
-
-	len
-{@calculatedFrom(
-    ""it's""
-
-    )
-    calculatedFrom
-    msg_type	,
-}
-")).
-Eval vm_compute in ("<<<M1402>>>" ++ check (runes_of_ascii "
-packet
-     { Header@calculatedFrom(""packet""  ) , char[
-    0123456789 ] packetx
-    , } // `tick` ""quote"" 'q'")).
-Eval vm_compute in ("<<<M1026>>>" ++ check (runes_of_ascii "packet
-// " ++ [128512]%N ++ runes_of_ascii " emoji
-// @lengthOf(
-Header
-    {	}
-MetaData
-Packet {
-uint64 As `say ""hi""`,	}
-// trailing space 
-")).
-Eval vm_compute in ("<<<M440>>>" ++ check (runes_of_ascii "// `tick` ""quote"" 'q'
-packet
-    trueish {
-    @lengthOf(
-MetaDataX ) uint8x	@calculatedFrom(""a\""b""  ) ,}")).
-Eval vm_compute in ("<<<M1058>>>" ++ check (runes_of_ascii "options {
-    } packet As {f32 int @calculatedFrom(""{,}"")
-, u8 packetx ,u128 len, } packet options1 {}")).
-Eval vm_compute in ("<<<M1653>>>" ++ check (runes_of_ascii "packet
-//	t
-// trailing space 
-_x {
-// packet A { u8 x, }
-// c
-char[
-3
-    ] u8x @lengthOf(
-u8x ) , ")).
-Eval vm_compute in ("<<<M4417>>>" ++ check (runes_of_ascii "packet chars {
-}
-
-packet MetaDataX {
-    @tag(42)
-    i16 string_,
-    repeat x `say ""hi""`,
-}
-// c")).
-Eval vm_compute in ("<<<M2372>>>" ++ check (runes_of_ascii "// c
-packet x { @lengthOf( metadata ) repeat lengthOf
-,a1{
-trueish	,// c
-repeat//	t
-MetaDataX ")).
-Eval vm_compute in ("<<<M3721>>>" ++ check (runes_of_ascii "options  {
-
-}
-options
-	{BodyLength
-
-=
-u16 
-Header  =
-f64
-;u128=true
-	;  }	// a // b@leftpad
-")).
-Eval vm_compute in ("<<<M4368>>>" ++ check (runes_of_ascii "
-MetaData
-
-body{
-i64 pack  `it's` ,} packet  stringy{ 
-// c
-    int16	calculatedFrom,	}
-")).
-Eval vm_compute in ("<<<M2962>>>" ++ check (runes_of_ascii "packet A {
-  match k as n {
-    [1, 22, 007, 4, 5, 66, 7, 8, 9, 10] : B,
-    2 : C
-  },
-}")).
-Eval vm_compute in ("<<<M3299>>>" ++ check (runes_of_ascii "MetaData float { float64 charz `
-` , } root packet chars { @rightPad ( '0' ) // c
-Foo , }")).
-Eval vm_compute in ("<<<M3510>>>" ++ check (runes_of_ascii "packet chars { } packet MetaDataX { @tag( 42 ) i16 string_ ,
-// c
-repeat x `say ""hi""` , }")).
-Eval vm_compute in ("<<<M2963>>>" ++ check (runes_of_ascii "packet A {
-  match k as n {
-    [1, 22, 007, 4, 5, 66, 7, 8, 9, 10] : B
-    2 : C
-  },
-}")).
-Eval vm_compute in ("<<<M519>>>" ++ check (runes_of_ascii "options  { Logon =char[0];} packet chars {
-u8 u  `u8 x,` ,	} options
-{ metadata= 0	}
-")).
-Eval vm_compute in ("<<<M3218>>>" ++ check (runes_of_ascii "packet metadata {
-// c
-Logon { A `" ++ [28040; 24687; 31867; 22411]%N ++ runes_of_ascii "` , tag o , } , zchar len `// not a comment` , }")).
-Eval vm_compute in ("<<<M4585>>>" ++ check (runes_of_ascii "
-packet x {
-    @rightPad 
-    // c
-    () 
-repeat
-    roots
-
-Logon`doc`
-
-    ,	}
-
-")).
-Eval vm_compute in ("<<<M3441>>>" ++ check (runes_of_ascii "packet o { repeat Logon uint8x , // c
-} options { asx = zchar[ 3 ] stringy = '\x00' }")).
-Eval vm_compute in ("<<<M2927>>>" ++ check (runes_of_ascii "packet A {
-  match k as n {
-    [1, ""bb"", 007, ""d"", 5, ""f"", 7] : B,
-    2 : C
-  },
-}")).
-Eval vm_compute in ("<<<M381>>>" ++ check (runes_of_ascii "/// triple
-MetaData zchar // " ++ [128512]%N ++ runes_of_ascii " emoji
-{ int32 pack
-// trailing space 
-//	t
-,
-    }
-")).
-Eval vm_compute in ("<<<M3416>>>" ++ check (runes_of_ascii "MetaData body { i64 pack `it's` , } packet stringy { int16 // c
-calculatedFrom , }")).
-Eval vm_compute in ("<<<M1526>>>" ++ check (runes_of_ascii "packet
-//	t
-// trailing space 
-_x {
-// packet A { u8 x, }
-// c
-char[
-3
-    ] u8x")).
-Eval vm_compute in ("<<<M1234>>>" ++ check (runes_of_ascii "//
-options{charz
-= ""1"" trueish = """" ;  asx =
-'0'i8i8 //	t
-=
-    ""it's""	;  }")).
-Eval vm_compute in ("<<<M1231>>>" ++ check (runes_of_ascii "options	{zchar = 10 As
-= u32// packet A { u8 x, }
-; A= ""a\\"" // " ++ [128512]%N ++ runes_of_ascii " emoji
-}
-")).
-Eval vm_compute in ("<<<M3183>>>" ++ check (runes_of_ascii "packet A {
-    match k as n {
-        1 : B // c
-        , // d
-    },
-}")).
-Eval vm_compute in ("<<<M1837>>>" ++ check (runes_of_ascii "options { trueish = ""`tick`"" ; string_= """ ++ [233]%N ++ runes_of_ascii "t" ++ [233]%N ++ runes_of_ascii """
-    // c
-    } root
-   ")).
-Eval vm_compute in ("<<<M4121>>>" ++ check (runes_of_ascii "options {
-    msg_type = 42;
-    metadata = """";
-    matchKey = u8
-}")).
-Eval vm_compute in ("<<<M2865>>>" ++ check (runes_of_ascii "packet A {
-  match k as n {
-    [""a"", ""bb""] : B
-    2 : C
-  },
-}")).
-Eval vm_compute in ("<<<M2869>>>" ++ check (runes_of_ascii "packet A {
-  match k as n {
-    [""a"", 22] : B
-    2 : C
-  },
-}")).
-Eval vm_compute in ("<<<M3175>>>" ++ check (runes_of_ascii "packet A { @leftPad() char[4] x, @rightPad( ) zchar[2] y, }")).
-Eval vm_compute in ("<<<M3375>>>" ++ check (runes_of_ascii "packet x { @rightPad ( ) // c
-repeat roots Logon `doc` , }")).
-Eval vm_compute in ("<<<M2345>>>" ++ check (runes_of_ascii "// c
-packet x { @lengthOf( metadata ) repeat lengthOf
-,")).
-Eval vm_compute in ("<<<M2824>>>" ++ check (runes_of_ascii "zchar[ i64 true i32 options MetaData @tag( as true [")).
-Eval vm_compute in ("<<<M288>>>" ++ check (runes_of_ascii "options { leftPad //	t
-= //	t
-""" ++ [28040; 24687]%N ++ runes_of_ascii """ } // " ++ [128512]%N ++ runes_of_ascii " emoji")).
-Eval vm_compute in ("<<<M1146>>>" ++ check (runes_of_ascii "
-root packet  u128	{	char[ 007 ]MetaDataX
-,}")).
-Eval vm_compute in ("<<<M2353>>>" ++ check (runes_of_ascii "// c
-packet x { @lengthOf( metadata ) repeat")).
-Eval vm_compute in ("<<<M31>>>" ++ check (runes_of_ascii "root
-packet uint8x {}root packet  Pad
-{}")).
-Eval vm_compute in ("<<<M3197>>>" ++ check (runes_of_ascii "root packet u128 { chars // c
+Eval vm_compute in ("<<<M763>>>" ++ check (runes_of_ascii "char[ string string string : uint8 `a\` i64")).
+Eval vm_compute in ("<<<M1108>>>" ++ check (runes_of_ascii "root packet u128 { chars // c
 `it's` , }")).
-Eval vm_compute in ("<<<M2655>>>" ++ check (runes_of_ascii "MetaData M { match k as n { 1 : B }, }")).
-Eval vm_compute in ("<<<M3048>>>" ++ check (runes_of_ascii "root packet A {
+Eval vm_compute in ("<<<M959>>>" ++ check (runes_of_ascii "root packet A {
     u8 x `tab
 	x`,
 }")).
-Eval vm_compute in ("<<<M459>>>" ++ check (runes_of_ascii "  MetaData a1 {
-    u64 packetx ,}")).
-Eval vm_compute in ("<<<M2828>>>" ++ check (runes_of_ascii "@calculatedFrom( x_y_z { """" @tag(")).
-Eval vm_compute in ("<<<M1202>>>" ++ check (runes_of_ascii "options
-{ lengthOf = false ; }
-")).
-Eval vm_compute in ("<<<M3092>>>" ++ check (runes_of_ascii "packet A {
- u8 x `d" ++ [8202]%N ++ runes_of_ascii "`, // c" ++ [8202]%N ++ runes_of_ascii "
+Eval vm_compute in ("<<<M1708>>>" ++ check (runes_of_ascii "packet A {
+    repeat B b `d`,
 }")).
-Eval vm_compute in ("<<<M2113>>>" ++ check (runes_of_ascii "options{
-_x
-= true
-} options")).
-Eval vm_compute in ("<<<M3878>>>" ++ check (runes_of_ascii "
+Eval vm_compute in ("<<<M80>>>" ++ check (runes_of_ascii "packet u8x {
+    //	t
+    }
 
-  MetaData
-	f32a{A x
-, }")).
-Eval vm_compute in ("<<<M2703>>>" ++ check (runes_of_ascii "s>z""[<H>6@7M*]R*[1m;4X~)`")).
-Eval vm_compute in ("<<<M2701>>>" ++ check (runes_of_ascii "zchar[ float32 ' ' { '0'")).
-Eval vm_compute in ("<<<M4092>>>" ++ check (runes_of_ascii "
-packet  A	{
-x
-`d`,	}")).
-Eval vm_compute in ("<<<M2698>>>" ++ check ([65533]%N ++ runes_of_ascii "#" ++ [3; 7]%N ++ runes_of_ascii ">" ++ [65533]%N ++ runes_of_ascii "iS" ++ [22; 65533; 65533; 65533; 65533; 65533]%N ++ runes_of_ascii "UsV" ++ [24; 65533; 65533]%N)).
-Eval vm_compute in ("<<<M2819>>>" ++ check (runes_of_ascii "uint64 , options1 (")).
-Eval vm_compute in ("<<<M3076>>>" ++ check (runes_of_ascii "// c" ++ [133]%N ++ runes_of_ascii "
-packet A {
-}")).
-Eval vm_compute in ("<<<M860>>>" ++ check (runes_of_ascii "packet zchar
-{ }")).
-Eval vm_compute in ("<<<M4173>>>" ++ check (runes_of_ascii "packet Header {
-}")).
-Eval vm_compute in ("<<<M640>>>" ++ check (runes_of_ascii " // @lengthOf(")).
-Eval vm_compute in ("<<<M2653>>>" ++ check (runes_of_ascii "MetaData { }")).
-Eval vm_compute in ("<<<M2483>>>" ++ check (runes_of_ascii "@leftPadx")).
-Eval vm_compute in ("<<<M2464>>>" ++ check (runes_of_ascii "repeats")).
-Eval vm_compute in ("<<<M2427>>>" ++ check (runes_of_ascii "char[")).
-Eval vm_compute in ("<<<M3114>>>" ++ check (runes_of_ascii "// c" ++ [11]%N)).
-Eval vm_compute in ("<<<M2693>>>" ++ check (runes_of_ascii "char")).
-Eval vm_compute in ("<<<M2673>>>" ++ check (runes_of_ascii "{ }")).
-Eval vm_compute in ("<<<M14>>>" ++ check (runes_of_ascii "
 ")).
+Eval vm_compute in ("<<<M753>>>" ++ check (runes_of_ascii "c%Wbj/?4;1uTXgLctYOdA$q,@")).
+Eval vm_compute in ("<<<M1389>>>" ++ check (runes_of_ascii "MetaData o { } // c
+")).
+Eval vm_compute in ("<<<M996>>>" ++ check (runes_of_ascii "packet A {
+}
+// c" ++ [8192]%N)).
+Eval vm_compute in ("<<<M979>>>" ++ check (runes_of_ascii "packet A {
+}// c" ++ [160]%N)).
+Eval vm_compute in ("<<<M248>>>" ++ check (runes_of_ascii "
+options
+{}")).
+Eval vm_compute in ("<<<M985>>>" ++ check (runes_of_ascii "// c" ++ [133]%N)).
+Eval vm_compute in ("<<<M730>>>" ++ check ([0]%N)).
